@@ -12,6 +12,7 @@
 //! second opinion), (iii) parsers return without panicking.
 
 use std::collections::{BTreeMap, HashSet};
+use std::io;
 use std::str::FromStr;
 use std::sync::Mutex;
 use rayon::prelude::*;
@@ -29,6 +30,7 @@ use rpki::rrdp::Hash;
 use rpki::uri;
 use rpki_verif::engine::enumerate::par_chunks;
 use rpki_verif::engine::report::repo_dir;
+use bytes::Bytes;
 use rpki_verif::{guard, hex, trunc, Ctx, Space};
 
 //============ Independent strict well-formedness checker ====================
@@ -2513,8 +2515,1067 @@ fn space_parsers(ctx: &Ctx, fx: &Fx) {
     sp.done(true, &format!("all octet strings of length <= {maxlen} x 6 parsers"));
 }
 
+//============ Sequences, environment, call parameters, shared parts =========
+//
+// Everything above evaluates one message at a time, each on whatever state the
+// worker thread happens to be in. The spaces below sweep what happened BEFORE
+// a call (history), who else holds the values (ownership / handed-out parts),
+// how the call is made (sink kinds, entry points, format specs) and the
+// process environment (TZ).
+
+/// One message of any of the three protocols behind one interface.
+#[derive(Clone, Debug, PartialEq)]
+enum AnyMsg { Prov(prov::Message), Pub(publ::Message), Child(idx::ChildRequest), Parent(idx::ParentResponse), Publisher(idx::PublisherRequest), Repo(idx::RepositoryResponse) }
+
+impl AnyMsg {
+    fn parser(&self) -> Parser {
+        match self { AnyMsg::Prov(_) => Parser::Prov, AnyMsg::Pub(_) => Parser::Pub, AnyMsg::Child(_) => Parser::Child, AnyMsg::Parent(_) => Parser::Parent,
+            AnyMsg::Publisher(_) => Parser::Publisher, AnyMsg::Repo(_) => Parser::Repo }
+    }
+    /// the write_xml entry point of the message's type
+    fn write_xml<W: io::Write>(&self, w: &mut W) -> Result<(), io::Error> {
+        match self { AnyMsg::Prov(m) => m.write_xml(w), AnyMsg::Pub(m) => m.write_xml(w), AnyMsg::Child(m) => m.write_xml(w), AnyMsg::Parent(m) => m.write_xml(w),
+            AnyMsg::Publisher(m) => m.write_xml(w), AnyMsg::Repo(m) => m.write_xml(w) }
+    }
+    /// to_xml_bytes / to_xml_vec
+    fn to_vec(&self) -> Vec<u8> {
+        match self { AnyMsg::Prov(m) => m.to_xml_bytes().to_vec(), AnyMsg::Pub(m) => m.to_xml_bytes().to_vec(), AnyMsg::Child(m) => m.to_xml_vec(), AnyMsg::Parent(m) => m.to_xml_vec(),
+            AnyMsg::Publisher(m) => m.to_xml_vec(), AnyMsg::Repo(m) => m.to_xml_vec() }
+    }
+    fn to_xml_string(&self) -> String {
+        match self { AnyMsg::Prov(m) => m.to_xml_string(), AnyMsg::Pub(m) => m.to_xml_string(), AnyMsg::Child(m) => m.to_xml_string(), AnyMsg::Parent(m) => m.to_xml_string(),
+            AnyMsg::Publisher(m) => m.to_xml_string(), AnyMsg::Repo(m) => m.to_xml_string() }
+    }
+    /// the Display impl, where the type has one
+    fn display(&self) -> Option<Box<dyn std::fmt::Display + Send + Sync + '_>> {
+        match self { AnyMsg::Prov(_) | AnyMsg::Pub(_) => None, AnyMsg::Child(m) => Some(Box::new(m)), AnyMsg::Parent(m) => Some(Box::new(m)),
+            AnyMsg::Publisher(m) => Some(Box::new(m)), AnyMsg::Repo(m) => Some(Box::new(m)) }
+    }
+    fn parse(p: Parser, b: &[u8]) -> Result<AnyMsg, String> {
+        match p {
+            Parser::Prov => prov_parse(b).map(AnyMsg::Prov), Parser::Pub => pub_parse(b).map(AnyMsg::Pub),
+            Parser::Child => idx::ChildRequest::parse(b).map(AnyMsg::Child).map_err(idx_err), Parser::Parent => idx::ParentResponse::parse(b).map(AnyMsg::Parent).map_err(idx_err),
+            Parser::Publisher => idx::PublisherRequest::parse(b).map(AnyMsg::Publisher).map_err(idx_err), Parser::Repo => idx::RepositoryResponse::parse(b).map(AnyMsg::Repo).map_err(idx_err),
+        }
+    }
+    fn sweep(&self) -> Result<Vec<String>, String> {
+        match self { AnyMsg::Prov(m) => m.sweep(), AnyMsg::Pub(m) => m.sweep(), AnyMsg::Child(m) => m.sweep(), AnyMsg::Parent(m) => m.sweep(), AnyMsg::Publisher(m) => m.sweep(), AnyMsg::Repo(m) => m.sweep() }
+    }
+    /// certificates and CSRs are written through base64's EncoderWriter, which retries a sink that
+    /// answers Ok(0) for ever (dependency behaviour, not judged): no Ok(0) sinks for these messages
+    fn uses_encoder_writer(&self) -> bool {
+        match self { AnyMsg::Prov(m) => match m.payload() { prov::Payload::ListResponse(l) => !l.classes().is_empty(), prov::Payload::Issue(_) | prov::Payload::IssueResponse(_) => true, _ => false }, _ => false }
+    }
+    /// The message taken apart through the public unpack / into_* / accessor API and put together again
+    /// through the public constructors (None where a field has no constructor: the tag of a child request).
+    fn rebuild(&self) -> Option<AnyMsg> {
+        Some(match self.clone() {
+            AnyMsg::Prov(m) => { let (s, r, p) = m.unpack(); AnyMsg::Prov(match p {
+                prov::Payload::List => prov::Message::list(s, r),
+                prov::Payload::ListResponse(l) => prov::Message::list_response(s, r, prov::ResourceClassListResponse::new(l.classes().iter().map(|c| prov::ResourceClassEntitlements::new(
+                    c.class_name().clone(), c.resource_set().clone(), c.not_after(),
+                    c.issued_certs().iter().map(|i| { let (u, l, c) = i.clone().unpack(); prov::IssuedCert::new(u, l, c) }).collect(),
+                    prov::SigningCert::new(c.signing_cert().url().clone(), c.signing_cert().cert().clone()))).collect())),
+                prov::Payload::Issue(q) => { let (n, l, c) = q.unpack(); prov::Message::issue(s, r, prov::IssuanceRequest::new(n, l, c)) }
+                prov::Payload::IssueResponse(q) => prov::Message::issue_response(s, r, q),
+                prov::Payload::Revoke(q) => { let (n, k) = q.unpack(); prov::Message::revoke(s, r, prov::RevocationRequest::new(n, k)) }
+                prov::Payload::RevokeResponse(q) => { let el: &prov::KeyElement = &q; prov::Message::revoke_response(s, r, prov::RevocationResponse::new(el.clone())) }
+                prov::Payload::ErrorResponse(e) => prov::Message::not_performed_response(s, r, e).ok()?,
+            })}
+            AnyMsg::Pub(m) => AnyMsg::Pub(match m {
+                publ::Message::Query(publ::Query::List) => publ::Message::list_query(),
+                publ::Message::Query(publ::Query::Delta(d)) => { let mut n = publ::PublishDelta::empty(); for e in d.into_elements() { match e {
+                    publ::PublishDeltaElement::Publish(p) => { let (t, u, c) = p.unpack(); n.add_publish(publ::Publish::new(t, u, c)) }
+                    publ::PublishDeltaElement::Update(p) => { let (t, u, c, h) = p.unpack(); n.add_update(publ::Update::new(t, u, c, h)) }
+                    publ::PublishDeltaElement::Withdraw(p) => { let (t, u, h) = p.unpack(); n.add_withdraw(publ::Withdraw::new(t, u, h)) }
+                }} publ::Message::delta(n) }
+                publ::Message::Reply(publ::Reply::List(l)) => publ::Message::list_reply(publ::ListReply::new(l.into_elements().into_iter().map(|e| { let (u, h) = e.unpack(); publ::ListElement::new(u, h) }).collect())),
+                publ::Message::Reply(publ::Reply::Success) => publ::Message::success(),
+                publ::Message::Reply(publ::Reply::ErrorReply(e)) => { let mut n = publ::ErrorReply::empty(); for r in e.errors() { n.add_error(r.clone()) } publ::Message::error(n) }
+            }),
+            AnyMsg::Child(m) => { let (i, h, t) = m.unpack(); if t.is_some() { return None } AnyMsg::Child(idx::ChildRequest::new(i, h)) }
+            AnyMsg::Parent(m) => AnyMsg::Parent(idx::ParentResponse::new(m.id_cert().clone(), m.parent_handle().clone(), m.child_handle().clone(), m.service_uri().clone(), m.tag().cloned())),
+            AnyMsg::Publisher(m) => { let (i, h, t) = m.unpack(); AnyMsg::Publisher(idx::PublisherRequest::new(i, h, t)) }
+            AnyMsg::Repo(m) => AnyMsg::Repo(idx::RepositoryResponse::new(m.id_cert().clone(), m.publisher_handle().clone(), m.service_uri().clone(), m.sia_base().clone(), m.rrdp_notification_uri().cloned(), m.tag().cloned())),
+        })
+    }
+}
+
+fn hd<T>(s: &str) -> idx::Handle<T> { idx::Handle::from_str(s).expect("menu handle") }
+fn text(v: &[u8]) -> String { String::from_utf8_lossy(v).into_owned() }
+
+/// One message of every type of the three protocols (and a few more shapes): special characters in every
+/// escaped position, tags absent / empty / present, short and long values, with and without certificates.
+fn message_menu(fx: &Fx) -> Vec<(&'static str, AnyMsg)> {
+    let special = fx.texts.iter().position(|t| t == "<&").map(|p| p - 1).unwrap_or(2);
+    let t = |s: &str| Some(s.to_string());
+    let cl = Class { name: special, url: 3, asn: 5, v4: 7, v6: 7, time: 0, signing: 0, issued: vec![Issued { uri: 4, la: 6, lb: 8, lc: 8, cert: 1 }] };
+    let e = class_of(fx, &cl);
+    let req = prov::RevocationRequest::new(prov::ResourceClassName::from("a\"b'c > d"), fx.keys[3]);
+    let mut delta = publ::PublishDelta::empty();
+    delta.add_publish(publ::Publish::new(t("t<&\"'>1"), fx.rsyncs[3].clone(), Base64::from_content(b"abc")));
+    delta.add_update(publ::Update::new(None, fx.rsyncs[1].clone(), Base64::from_content(b"abcd"), fx.hashes[2]));
+    delta.add_withdraw(publ::Withdraw::new(t(""), fx.rsyncs[4].clone(), fx.hashes[1]));
+    let mut long_delta = publ::PublishDelta::empty();
+    long_delta.add_withdraw(publ::Withdraw::new(Some(long_text(200)), scale_uri(7), scale_hash(7)));
+    long_delta.add_publish(publ::Publish::with_hash_tag(scale_uri(8), Base64::from_content(&pattern(100, 1))));
+    let mut er = publ::ErrorReply::for_error(publ::ReportError::with_code(publ::ReportErrorCode::ObjectAlreadyPresent));
+    er.add_error(publ::ReportError::with_code(publ::ReportErrorCode::OtherError));
+    let failed_pdu = format!("<msg xmlns=\"{PUB_NS}\" version=\"4\" type=\"reply\"><report_error error_code=\"no_object_present\" tag=\"t&amp;1\"><error_text>text with \"quotes\" and 'apostrophes' ></error_text><failed_pdu><publish tag=\"x\" uri=\"rsync://h/m/a&amp;b\" hash=\"{}\">QUJD</publish></failed_pdu></report_error></msg>", fx.hashes[2]);
+    let child_tag = format!("<child_request xmlns=\"{SETUP_NS}\" version=\"1\" child_handle=\"Carol/1\" tag=\"t&amp;&lt;&quot;&#39;g\"><child_bpki_ta>QUJD</child_bpki_ta></child_request>");
+    let short_id = || Base64::from_content(&fx.idcerts[4].1);
+    let mut v: Vec<(&'static str, AnyMsg)> = vec![
+        ("prov.list", AnyMsg::Prov(prov::Message::list(hd("child"), hd("Parent/1")))),
+        ("prov.list.long-handles", AnyMsg::Prov(prov::Message::list(fx.handle(fx.h_a255), fx.handle(fx.h_slash255)))),
+        ("prov.list_response", AnyMsg::Prov(prov::Message::list_response(hd("child"), hd("parent"), prov::ResourceClassListResponse::new(vec![e.clone()])))),
+        ("prov.list_response.empty", AnyMsg::Prov(prov::Message::list_response(hd("child"), hd("parent"), prov::ResourceClassListResponse::new(vec![])))),
+        ("prov.issue", AnyMsg::Prov(prov::Message::issue(hd("child"), hd("parent"), prov::IssuanceRequest::new(fx.class(special), fx.limit(6, 8, 8), fx.csrs[0].1.clone())))),
+        ("prov.issue_response", AnyMsg::Prov(prov::Message::issue_response(hd("child"), hd("parent"), prov::IssuanceResponse::new(
+            e.class_name().clone(), e.resource_set().clone(), e.not_after(), e.issued_certs()[0].clone(), e.signing_cert().clone())))),
+        ("prov.revoke", AnyMsg::Prov(prov::Message::revoke(hd("child"), hd("parent"), req.clone()))),
+        ("prov.revoke_response", AnyMsg::Prov(prov::Message::revoke_response(hd("_"), hd("-"), prov::RevocationResponse::from(&req)))),
+        ("prov.error_response", AnyMsg::Prov(prov::Message::not_performed_response(hd("parent"), hd("child"), prov::NotPerformedResponse::err_1201()).expect("constructor"))),
+        ("pub.list_query", AnyMsg::Pub(publ::Message::list_query())),
+        ("pub.list_reply", AnyMsg::Pub(publ::Message::list_reply(publ::ListReply::new(vec![
+            publ::ListElement::new(fx.rsyncs[2].clone(), fx.hashes[2]), publ::ListElement::new(fx.rsyncs[3].clone(), fx.hashes[0]), publ::ListElement::new(fx.rsyncs[1].clone(), fx.hashes[1])])))),
+        ("pub.list_reply.empty", AnyMsg::Pub(publ::Message::list_reply(publ::ListReply::empty()))),
+        ("pub.delta", AnyMsg::Pub(publ::Message::delta(delta))),
+        ("pub.delta.long-tag", AnyMsg::Pub(publ::Message::delta(long_delta))),
+        ("pub.success", AnyMsg::Pub(publ::Message::success())),
+        ("pub.error_reply", AnyMsg::Pub(publ::Message::error(er))),
+        ("idex.child_request", AnyMsg::Child(idx::ChildRequest::new(short_id(), hd("Carol/1")))),
+        ("idex.parent_response", AnyMsg::Parent(idx::ParentResponse::new(Base64::from_content(&fx.idcerts[0].1), hd("Parent"), hd("Carol/1"), fx.services[fx.svc_special].clone(), t("t<&\"'>1")))),
+        ("idex.publisher_request", AnyMsg::Publisher(idx::PublisherRequest::new(short_id(), hd("Alice_Bob"), t("t&1")))),
+        ("idex.repository_response", AnyMsg::Repo(idx::RepositoryResponse::new(short_id(), hd("Alice_Bob"), fx.services[fx.svc_plain].clone(), fx.rsyncs[3].clone(), Some(fx.httpss[4].clone()), t("t'1")))),
+        ("idex.repository_response.minimal", AnyMsg::Repo(idx::RepositoryResponse::new(short_id(), hd("p"), fx.services[fx.svc_special].clone(), fx.rsyncs[0].clone(), None, None))),
+    ];
+    // messages only a decoder can make (failed_pdu, tag on a child request)
+    if let Ok(m) = pub_parse(failed_pdu.as_bytes()) { v.push(("pub.error_reply.failed_pdu", AnyMsg::Pub(m))) }
+    if let Ok(m) = idx::ChildRequest::parse(child_tag.as_bytes()) { v.push(("idex.child_request.tag", AnyMsg::Child(m))) }
+    v
+}
+
+/// What a sink does once its budget of octets is used up.
+#[derive(Clone, Copy, Debug, PartialEq, Eq)]
+enum Fault { Error, Zero, Panic }
+
+/// Accepts `budget` octets, then fails in the chosen way (a panicking sink panics once, then reports errors:
+/// the writer's destructors run while the first panic unwinds).
+struct FaultySink { budget: usize, fault: Fault, got: Vec<u8>, panicked: bool }
+
+impl FaultySink { fn new(budget: usize, fault: Fault) -> Self { FaultySink { budget, fault, got: Vec::new(), panicked: false } } }
+
+impl io::Write for FaultySink {
+    fn write(&mut self, buf: &[u8]) -> io::Result<usize> {
+        if buf.is_empty() { return Ok(0) }
+        let room = self.budget.saturating_sub(self.got.len());
+        if room == 0 {
+            return match self.fault {
+                Fault::Zero => Ok(0),
+                Fault::Panic if !self.panicked => { self.panicked = true; panic!("sink panics after {} octets", self.budget) }
+                _ => Err(io::Error::other("sink is full")),
+            }
+        }
+        let n = room.min(buf.len());
+        self.got.extend_from_slice(&buf[..n]);
+        Ok(n)
+    }
+    fn flush(&mut self) -> io::Result<()> { Ok(()) }
+}
+
+/// A fmt::Write that fails once more than `budget` octets have been offered.
+struct FaultyFmt { budget: usize, got: usize }
+impl std::fmt::Write for FaultyFmt {
+    fn write_str(&mut self, s: &str) -> std::fmt::Result {
+        if self.got + s.len() > self.budget { self.got = self.budget; Err(std::fmt::Error) } else { self.got += s.len(); Ok(()) }
+    }
+}
+
+type Act<'a> = Box<dyn Fn() -> String + Send + Sync + 'a>;
+
+/// Runs `f` on a dedicated, new OS thread (fresh thread-locals) and waits for it.
+fn on_fresh_thread<T: Send>(f: impl FnOnce() -> T + Send) -> T {
+    std::thread::scope(|s| s.spawn(f).join().unwrap_or_else(|_| panic!("history thread died")))
+}
+
+/// One observation: everything observable as text; a panic is an observation too.
+fn observe(f: &(dyn Fn() -> String + Send + Sync)) -> String {
+    match guard(f) { Ok(s) => s, Err(p) => format!("PANIC: {p}") }
+}
+
+/// The part of `a` around the first place where it differs from `b`.
+fn first_difference(a: &str, b: &str) -> String {
+    let k = a.bytes().zip(b.bytes()).position(|(x, y)| x != y).unwrap_or(a.len().min(b.len()));
+    let mut from = k.saturating_sub(60);
+    while !a.is_char_boundary(from) { from -= 1 }
+    format!("[at octet {k}] ...{}", &a[from..])
+}
+
+/// Oracles (i) and (ii) on one message, as text.
+fn observe_roundtrip(m: &AnyMsg) -> String {
+    let mut doc = Vec::new();
+    let w = m.write_xml(&mut doc).map_err(|e| e.to_string());
+    let wf = match wf_check(&doc) { Ok(_) => "well-formed".to_string(), Err(e) => format!("NOT WELL-FORMED ({e})") };
+    let back = match AnyMsg::parse(m.parser(), &doc) {
+        Ok(b) if b == *m => "parses back equal".to_string(),
+        Ok(b) => format!("PARSES BACK UNEQUAL: {}", trunc(&format!("{b:?}"), 600)),
+        Err(e) => format!("DOES NOT PARSE BACK: {e}"),
+    };
+    format!("write_xml={w:?} document: {} -- {wf}; {back}", text(&doc))
+}
+
+/// Captured files the decode-pipeline subjects and predecessors use, read once.
+struct Files { cms: Vec<(&'static str, Vec<u8>)>, pdu200: Vec<u8>, ta_key: Option<rpki::crypto::PublicKey>, parent_response: Vec<u8>, repo_response: Vec<u8> }
+
+impl Files {
+    fn load() -> Files {
+        Files {
+            cms: ["issue.der", "list.der", "issue-response.der"].into_iter().map(|f| (f, read(&format!("ca/rfc6492/{f}")))).collect(),
+            pdu200: read("ca/sigmsg/pdu_200.der"),
+            ta_key: rpki::ca::idcert::IdCert::decode(read("ca/sigmsg/cms_ta.cer").as_slice()).ok().map(|c| c.public_key().clone()),
+            parent_response: read("ca/rfc8183/krill-0-9-parent-response.xml"),
+            repo_response: read("ca/rfc8183/apnic-repository-response.xml"),
+        }
+    }
+}
+
+const FIXED_INSTANTS: [(i32, u32); 4] = [(1990, 1), (2021, 6), (2030, 1), (2200, 1)];
+
+/// Values with a Display impl (and the way back, where there is one): subjects, fmt-failure predecessors
+/// and the call_parameters.display space share this list.
+struct Shown<'a> { name: String, value: Box<dyn std::fmt::Display + Send + Sync + 'a>, back: Box<dyn Fn(&str) -> bool + Send + Sync + 'a> }
+
+fn shown_values<'a>(fx: &'a Fx, menu: &'a [(&'static str, AnyMsg)]) -> Vec<Shown<'a>> {
+    let mut v: Vec<Shown<'a>> = Vec::new();
+    macro_rules! fromstr { ($name:expr, $val:expr, $ty:ty) => {{ let val = $val; let twin = val.clone(); v.push(Shown { name: $name, value: Box::new(val), back: Box::new(move |t| <$ty>::from_str(t).ok().is_some_and(|x| x == twin)) }) }} }
+    macro_rules! plain { ($name:expr, $val:expr) => {{ let val = $val; let want = guard(|| val.to_string()).unwrap_or_default(); v.push(Shown { name: $name, value: Box::new(val), back: Box::new(move |t| t == want) }) }} }
+    for i in [0usize, 3, fx.h_a255, fx.h_slash255] { fromstr!(format!("Handle {:?}", trunc(&fx.handles[i], 30)), fx.handle::<idx::Myself>(i), idx::Handle<idx::Myself>) }
+    for i in [fx.svc_plain, fx.svc_special] { fromstr!(format!("ServiceUri {:?}", fx.services[i].as_str()), fx.services[i].clone(), idx::ServiceUri) }
+    for s in ["a", "a\"b'c > d", "<&"] { fromstr!(format!("ResourceClassName {s:?}"), prov::ResourceClassName::from(s), prov::ResourceClassName) }
+    for s in ["list", "list_response", "issue", "issue_response", "revoke", "revoke_response", "error_response"] {
+        if let Ok(p) = prov::PayloadType::from_str(s) { let twin = s.to_string(); v.push(Shown { name: format!("PayloadType {s}"), value: Box::new(p), back: Box::new(move |t| prov::PayloadType::from_str(t).ok().is_some_and(|x| x.as_ref() == twin)) }) }
+    }
+    for c in CODES { fromstr!(format!("ReportErrorCode {c}"), c.clone(), publ::ReportErrorCode) }
+    for i in [2usize, 3] { fromstr!(format!("rrdp::Hash #{i}"), fx.hashes[i % fx.hashes.len()], Hash); fromstr!(format!("KeyIdentifier #{i}"), fx.keys[i], KeyIdentifier) }
+    for i in [1usize, 3] { fromstr!(format!("uri::Rsync {:?}", fx.rsyncs[i].as_str()), fx.rsyncs[i].clone(), uri::Rsync); fromstr!(format!("uri::Https {:?}", fx.httpss[i].as_str()), fx.httpss[i].clone(), uri::Https) }
+    plain!("Base64 of 4 octets".to_string(), Base64::from_content(b"<&\"'"));
+    plain!("RequestResourceLimit none".to_string(), fx.limit(0, 0, 0));
+    plain!("RequestResourceLimit as+v4+v6".to_string(), fx.limit(6, 8, 8));
+    plain!("RequestResourceLimit v6 only".to_string(), fx.limit(0, 0, 3));
+    plain!("IssuanceRequest".to_string(), prov::IssuanceRequest::new(prov::ResourceClassName::from("c&1"), fx.limit(6, 0, 8), fx.csrs[0].1.clone()));
+    { let req = prov::RevocationRequest::new(prov::ResourceClassName::from("c'1"), fx.keys[2]); let el: &prov::KeyElement = &req; plain!("KeyElement".to_string(), el.clone()) }
+    plain!("NotPerformedResponse 1201".to_string(), prov::NotPerformedResponse::err_1201());
+    plain!("NotPerformedResponse 2001".to_string(), prov::NotPerformedResponse::err_2001());
+    { let mut er = publ::ErrorReply::for_error(publ::ReportError::with_code(publ::ReportErrorCode::XmlError)); er.add_error(publ::ReportError::with_code(publ::ReportErrorCode::OtherError)); plain!("ErrorReply of 2 reports".to_string(), er) }
+    for (name, m) in menu {
+        if *name == "idex.parent_response" { continue }   // 2 KB of certificate: same code path as the others
+        if let Some(d) = m.display() { let p = m.parser(); v.push(Shown { name: format!("{name} (Display)"), value: d, back: Box::new(move |t| AnyMsg::parse(p, t.as_bytes()).ok().is_some_and(|b| b == *m)) }) }
+    }
+    if let Err(e) = idx::Handle::<idx::Myself>::from_str("a b") { plain!("InvalidHandle".to_string(), e) }
+    if let Err(e) = prov::PayloadType::from_str("nope") { plain!("PayloadTypeError".to_string(), e) }
+    v
+}
+
+/// The subjects: one evaluation of every oracle family per message type, accepted and rejected.
+fn history_subjects<'a>(fx: &'a Fx, menu: &'a [(&'static str, AnyMsg)], docs: &'a [Vec<u8>], shown: &'a [Shown<'a>], files: &'a Files) -> Vec<(String, Act<'a>)> {
+    let mut v: Vec<(String, Act<'a>)> = Vec::new();
+    for (name, m) in menu { v.push((format!("round trip of {name}"), Box::new(move || observe_roundtrip(m)))) }
+    // rejections at two stages, and a document of another type, per parser
+    for p in PARSERS {
+        let Some(i) = menu.iter().position(|(_, m)| m.parser() == p) else { continue };
+        let other = (i + 7) % menu.len();
+        v.push((format!("rejections by the {} parser", p.name()), Box::new(move || {
+            let d = &docs[i];
+            format!("{:?} / {:?} / {:?} / {:?}", AnyMsg::parse(p, &d[..d.len() / 3]).map(|_| "accepted"), AnyMsg::parse(p, &d[..d.len() * 2 / 3]).map(|_| "accepted"),
+                AnyMsg::parse(p, &docs[other]).map(|_| "accepted"), AnyMsg::parse(p, b"<a/>").map(|_| "accepted"))
+        })));
+    }
+    v.push(("Display / to_string of every value type".into(), Box::new(move || shown.iter().map(|s| format!("{}: {}\n", s.name, trunc(&s.value.to_string(), 300))).collect())));
+    v.push(("to_xml_string / Display / to_xml_bytes agree".into(), Box::new(move || menu.iter().map(|(n, m)| {
+        let (a, b, c) = (m.to_vec(), m.to_xml_string(), m.display().map(|d| d.to_string()));
+        format!("{n}: {} {}\n", a == b.as_bytes(), c.is_none_or(|c| c == b))
+    }).collect())));
+    // times: every not-after of the alphabet written and parsed; offsets and fractions decoded and written again
+    v.push(("not-after times written, parsed, respelled".into(), Box::new(move || {
+        let mut o = String::new();
+        for (i, t) in fx.times.iter().enumerate() {
+            let e = prov::ResourceClassEntitlements::new(prov::ResourceClassName::from("t"), ResourceSet::empty(), *t, vec![], prov::SigningCert::new(fx.rsyncs[1].clone(), fx.certs[0].1.clone()));
+            let m = prov::Message::list_response(hd("c"), hd("p"), prov::ResourceClassListResponse::new(vec![e]));
+            let d = prov_write(&m);
+            let s = text(&d);
+            let at = s.find("resource_set_notafter").unwrap_or(0);
+            o.push_str(&format!("time#{i} {} {} {:?}\n", t.to_rfc3339(), &s[at..(at + 60).min(s.len())], prov_parse(&d).map(|b| b == m)));
+            for (from, to) in [("Z\"", "+00:00\""), ("Z\"", "-00:00\""), ("Z\"", ".250Z\"")] {
+                let respelled = s.replacen(&format!("{}{from}", &t.to_rfc3339()[..19]), &format!("{}{to}", &t.to_rfc3339()[..19]), 1);
+                o.push_str(&format!("  {to} -> {:?}\n", prov_parse(respelled.as_bytes()).map(|b| { let w = text(&prov_write(&b)); let at = w.find("resource_set_notafter").unwrap_or(0); w[at..(at + 60).min(w.len())].to_string() })));
+            }
+        }
+        for off in ["2030-01-02T15:04:05+12:00", "2030-01-01T13:04:05-14:00", "2030-01-02T04:04:05+01:00", "2029-12-31T23:30:00-05:30"] {
+            let e = prov::ResourceClassEntitlements::new(prov::ResourceClassName::from("t"), ResourceSet::empty(), fx.times[0], vec![], prov::SigningCert::new(fx.rsyncs[1].clone(), fx.certs[0].1.clone()));
+            let s = text(&prov_write(&prov::Message::list_response(hd("c"), hd("p"), prov::ResourceClassListResponse::new(vec![e])))).replacen("2030-01-02T03:04:05Z", off, 1);
+            o.push_str(&format!("{off} -> {:?}\n", prov_parse(s.as_bytes()).map(|b| match b.payload() { prov::Payload::ListResponse(l) => l.classes()[0].not_after().to_rfc3339(), _ => "?".into() })));
+        }
+        o
+    })));
+    v.push(("CMS wrappers decoded and validated".into(), Box::new(move || {
+        let mut o = String::new();
+        for (f, bytes) in &files.cms {
+            match prov::ProvisioningCms::decode(bytes.as_slice()) {
+                Err(e) => o.push_str(&format!("{f}: {e}\n")),
+                Ok(cms) => {
+                    o.push_str(&format!("{f}: fnv{:016x}", fnv64(&prov_write(cms.message()))));
+                    if let Some(k) = &files.ta_key {
+                        for (y, mo) in FIXED_INSTANTS { o.push_str(&format!(" {y}:{}", cms.validate_at(k, Time::utc(y, mo, 1, 0, 0, 0)).is_ok())) }
+                        o.push_str(&format!(" now-agrees:{}", cms.validate(k).is_ok() == cms.validate_at(k, Time::now()).is_ok()));
+                    }
+                    o.push('\n');
+                }
+            }
+        }
+        match publ::PublicationCms::decode(files.pdu200.as_slice()) {
+            Err(e) => o.push_str(&format!("pdu_200: {e}\n")),
+            Ok(cms) => {
+                if let Some(k) = &files.ta_key { for (y, mo) in FIXED_INSTANTS { o.push_str(&format!(" {y}:{}", cms.validate_at(k, Time::utc(y, mo, 1, 0, 0, 0)).is_ok())) } }
+                o.push_str(&format!(" pdu_200: {}\n", text(&pub_write(&cms.into_message()))));
+            }
+        }
+        o
+    })));
+    v.push(("identity certificates validated".into(), Box::new(move || {
+        let mut o = String::new();
+        match idx::ParentResponse::parse(files.parent_response.as_slice()) {
+            Err(e) => o.push_str(&format!("parent response: {e}\n")),
+            Ok(r) => {
+                for (y, mo) in FIXED_INSTANTS { o.push_str(&format!(" {y}:{:?}", r.validate_at(Time::utc(y, mo, 1, 0, 0, 0)).map(|c| fnv64(c.to_captured().as_slice())).map_err(|e| e.to_string()))) }
+                o.push_str(&format!(" now-agrees:{}\n{}\n", r.validate().is_ok() == r.validate_at(Time::now()).is_ok(), r.to_xml_string()));
+            }
+        }
+        match idx::RepositoryResponse::parse(files.repo_response.as_slice()) {
+            Err(e) => o.push_str(&format!("repository response: {e}\n")),
+            Ok(r) => o.push_str(&format!(" now-agrees:{} {:?}\n{r}\n", r.validate().is_ok() == idx::validate_idcert_at(r.id_cert(), Time::now()).is_ok(), r.repo_info().resolve("ns", "f.cer").to_string())),
+        }
+        for i in 2..fx.idcerts.len() { o.push_str(&format!(" {}:{:?}", fx.idcerts[i].0, idx::validate_idcert_at(&Base64::from_content(&fx.idcerts[i].1), Time::utc(2030, 1, 1, 0, 0, 0)).map(|_| "valid").map_err(|e| e.to_string()))) }
+        o
+    })));
+    v.push(("value constructors, accepted and refused".into(), Box::new(|| {
+        let mut o = String::new();
+        for s in ["a", "a b", "", "A/b_c-9", "\u{e9}"] { o.push_str(&format!("{:?} ", idx::Handle::<idx::Child>::from_str(s).map(|h| h.to_string()).map_err(|e| e.to_string()))) }
+        for s in ["https://h/x?a&b", "HTTP://h", "ftp://h", "h", ""] { o.push_str(&format!("{:?} ", idx::ServiceUri::from_str(s).map(|h| h.to_string()).map_err(|e| e.to_string()))) }
+        for s in ["xml_error", "XML_ERROR", "nope"] { o.push_str(&format!("{:?} ", publ::ReportErrorCode::from_str(s).map(|h| h.to_string()).map_err(|e| e.to_string()))) }
+        for s in ["list", "nope"] { o.push_str(&format!("{:?} ", prov::PayloadType::from_str(s).map(|h| h.to_string()).map_err(|e| e.to_string()))) }
+        for s in ["zz", "00"] { o.push_str(&format!("{:?} {:?} ", Hash::from_str(s).map(|h| h.to_string()).map_err(|e| e.to_string()), KeyIdentifier::from_str(s).map(|h| h.to_string()).map_err(|e| e.to_string()))) }
+        for s in ["rsync://h/m/a&b", "rsync://h", "https://h/'", "https:/"] { o.push_str(&format!("{:?} {:?} ", uri::Rsync::from_str(s).map(|h| h.to_string()).map_err(|e| e.to_string()), uri::Https::from_str(s).map(|h| h.to_string()).map_err(|e| e.to_string()))) }
+        o
+    })));
+    v
+}
+
+/// One predecessor: an operation of the same API family, chosen for its exit path.
+#[derive(Clone, Debug)]
+enum Pred {
+    /// write_xml of menu message `msg` into a sink that fails in way `fault` after `k` octets
+    FailWrite { msg: usize, k: usize, fault: Fault },
+    /// ... into a `&mut [u8]` of `k` octets (`cursor`: wrapped in an io::Cursor)
+    SliceWrite { msg: usize, k: usize, cursor: bool },
+    /// Display of value `val` into a fmt::Write that fails after `k` octets
+    FmtFail { val: usize, k: usize },
+    /// the document of menu message `msg` cut after `k` octets, into parser `parser`
+    ParseCut { msg: usize, k: usize, parser: Parser },
+    /// the document with octet `k` replaced by `byte`
+    ParseSub { msg: usize, k: usize, byte: u8 },
+    /// a successful round trip of menu message `msg`
+    Roundtrip { msg: usize },
+    /// entry `0` of the list of other operations (decode pipelines, constructors, larger values)
+    Other(usize),
+}
+
+struct Hist<'a> { menu: &'a [(&'static str, AnyMsg)], docs: &'a [Vec<u8>], shown: &'a [Shown<'a>], other: Vec<(String, Act<'a>)> }
+
+impl Pred {
+    fn name(&self, h: &Hist) -> String {
+        match *self {
+            Pred::FailWrite { msg, k, fault } => format!("write_xml of {} into a sink that {} after {k} of {} octets", h.menu[msg].0,
+                match fault { Fault::Error => "returns an error", Fault::Zero => "accepts no more (Ok(0))", Fault::Panic => "panics" }, h.docs[msg].len()),
+            Pred::SliceWrite { msg, k, cursor } => format!("write_xml of {} into {} of {k} octets (document has {})", h.menu[msg].0, if cursor { "an io::Cursor over a `&mut [u8]`" } else { "a `&mut [u8]`" }, h.docs[msg].len()),
+            Pred::FmtFail { val, k } => format!("Display of {} into a fmt::Write that fails after {k} octets", h.shown[val].name),
+            Pred::ParseCut { msg, k, parser } => format!("{} parser on the {} document cut after {k} of {} octets", parser.name(), h.menu[msg].0, h.docs[msg].len()),
+            Pred::ParseSub { msg, k, byte } => format!("parse of the {} document with octet {k} := {:?}", h.menu[msg].0, byte as char),
+            Pred::Roundtrip { msg } => format!("successful round trip of {}", h.menu[msg].0),
+            Pred::Other(i) => h.other[i].0.clone(),
+        }
+    }
+    fn run(&self, h: &Hist) -> String {
+        match *self {
+            Pred::FailWrite { msg, k, fault } => { let mut sink = FaultySink::new(k, fault); format!("{:?}", h.menu[msg].1.write_xml(&mut sink).map_err(|e| e.to_string())) }
+            Pred::SliceWrite { msg, k, cursor } => {
+                let mut buf = vec![0u8; k];
+                let r = if cursor { h.menu[msg].1.write_xml(&mut io::Cursor::new(&mut buf[..])) } else { let mut sink: &mut [u8] = &mut buf[..]; h.menu[msg].1.write_xml(&mut sink) };
+                format!("{:?}", r.map_err(|e| e.to_string()))
+            }
+            Pred::FmtFail { val, k } => { use std::fmt::Write as _; let mut sink = FaultyFmt { budget: k, got: 0 }; format!("{:?}", write!(sink, "{}", h.shown[val].value)) }
+            Pred::ParseCut { msg, k, parser } => format!("{:?}", AnyMsg::parse(parser, &h.docs[msg][..k]).map(|_| "accepted")),
+            Pred::ParseSub { msg, k, byte } => { let mut d = h.docs[msg].clone(); d[k] = byte; format!("{:?}", AnyMsg::parse(h.menu[msg].1.parser(), &d).map(|_| "accepted")) }
+            Pred::Roundtrip { msg } => { let m = &h.menu[msg].1; format!("{:?}", AnyMsg::parse(m.parser(), &m.to_vec()).map(|b| b == *m)) }
+            Pred::Other(i) => (h.other[i].1)(),
+        }
+    }
+}
+
+/// Offsets inside runs of at least 64 base64 characters, except the first and last 4 of each run and every 61st.
+fn thinned_base64(doc: &[u8]) -> HashSet<usize> {
+    let mut out = HashSet::new();
+    let is64 = |c: u8| c.is_ascii_alphanumeric() || c == b'+' || c == b'/' || c == b'=';
+    let mut i = 0;
+    while i < doc.len() {
+        if !is64(doc[i]) { i += 1; continue }
+        let s = i;
+        while i < doc.len() && is64(doc[i]) { i += 1 }
+        if i - s >= 64 { for k in s + 4..i - 4 { if (k - s) % 61 != 0 { out.insert(k); } } }
+    }
+    out
+}
+
+/// Decode pipelines failing at every stage, constructors refusing, larger and same-identity values.
+fn other_predecessors<'a>(ctx: &'a Ctx, fx: &'a Fx, files: &'a Files, signer: &'a rpki_verif::engine::signer::PoolSigner) -> Vec<(String, Act<'a>)> {
+    use rpki_verif::engine::signer::Kid;
+    let mut v: Vec<(String, Act<'a>)> = Vec::new();
+    for (f, bytes) in &files.cms {
+        for (what, cut) in [("cut to a third", bytes.len() / 3), ("cut to two thirds", bytes.len() * 2 / 3), ("without its last octet", bytes.len() - 1), ("complete", bytes.len())] {
+            v.push((format!("ProvisioningCms::decode of {f} {what}"), Box::new(move || format!("{:?}", prov::ProvisioningCms::decode(&bytes[..cut]).map(|_| "decoded").map_err(|e| e.to_string())))));
+        }
+        v.push((format!("PublicationCms::decode of {f} (CMS fine, content is another protocol's)"), Box::new(move || format!("{:?}", publ::PublicationCms::decode(bytes.as_slice()).map(|_| "decoded").map_err(|e| e.to_string())))));
+        v.push((format!("ProvisioningCms {f}: validate_at with a key that did not sign it, and outside the validity"), Box::new(move || {
+            let Ok(cms) = prov::ProvisioningCms::decode(bytes.as_slice()) else { return "Err(decode)".into() };
+            format!("{:?} {:?}", cms.validate_at(&signer.public(1), Time::utc(2021, 6, 1, 0, 0, 0)).map_err(|e| e.to_string()),
+                files.ta_key.as_ref().map(|k| cms.validate_at(k, Time::utc(1990, 1, 1, 0, 0, 0)).map_err(|e| e.to_string())))
+        })));
+    }
+    v.push(("ProvisioningCms::decode of pdu_200.der (CMS fine, content is another protocol's)".into(), Box::new(move || format!("{:?}", prov::ProvisioningCms::decode(files.pdu200.as_slice()).map(|_| "decoded").map_err(|e| e.to_string())))));
+    for cut in [0usize, 1, 100] { v.push((format!("PublicationCms::decode of pdu_200.der cut to {cut} octets"), Box::new(move || format!("{:?}", publ::PublicationCms::decode(&files.pdu200[..cut]).map(|_| "decoded").map_err(|e| e.to_string()))))) }
+    // signing fails after the message was assembled; signing succeeds
+    for key in [99usize, 0] {
+        v.push((format!("ProvisioningCms::create with key #{key} of a pool of 8"), Box::new(move || {
+            let m = prov::Message::list(hd("child"), hd("parent"));
+            match prov::ProvisioningCms::create(m.clone(), &Kid(key), signer) { Err(e) => format!("Err({e})"), Ok(cms) => format!("{:?}", prov::ProvisioningCms::decode(cms.to_bytes().as_ref()).map(|c| *c.message() == m).map_err(|e| e.to_string())) }
+        })));
+        v.push((format!("PublicationCms::create with key #{key} of a pool of 8"), Box::new(move || {
+            let m = publ::Message::list_reply(publ::ListReply::new(vec![publ::ListElement::new(fx.rsyncs[3].clone(), fx.hashes[2])]));
+            match publ::PublicationCms::create(m.clone(), &Kid(key), signer) { Err(e) => format!("Err({e})"), Ok(cms) => format!("{:?}", publ::PublicationCms::decode(cms.to_bytes().as_ref()).map(|c| c.into_message() == m).map_err(|e| e.to_string())) }
+        })));
+    }
+    for i in 0..fx.idcerts.len() { for (y, mo) in [(1990, 1), (2030, 1)] {
+        v.push((format!("validate_idcert_at of {} in {y}", fx.idcerts[i].0), Box::new(move || format!("{:?}", idx::validate_idcert_at(&Base64::from_content(&fx.idcerts[i].1), Time::utc(y, mo, 1, 0, 0, 0)).map(|_| "valid").map_err(|e| e.to_string())))));
+    }}
+    for s in ["a b", "", "\u{e9}", "a+b"] { v.push((format!("Handle::from_str({s:?}) and TryFrom<String>"), Box::new(move || format!("{:?} {:?}", idx::Handle::<idx::Child>::from_str(s).map(|_| "ok").map_err(|e| e.to_string()), idx::Handle::<idx::Parent>::try_from(s.to_string()).map(|_| "ok").map_err(|e| e.to_string()))))) }
+    v.push(("Handle::from_str of 256 characters".into(), Box::new(|| format!("{:?}", idx::Handle::<idx::Child>::from_str(&"a".repeat(256)).map(|_| "ok").map_err(|e| e.to_string())))));
+    for s in ["ftp://h/x", "h", "", "http:/", "https://"] { v.push((format!("ServiceUri::from_str({s:?})"), Box::new(move || format!("{:?}", idx::ServiceUri::from_str(s).map(|_| "ok").map_err(|e| e.to_string()))))) }
+    for s in ["nope", ""] { v.push((format!("ReportErrorCode / PayloadType from_str({s:?})"), Box::new(move || format!("{:?} {:?}", publ::ReportErrorCode::from_str(s).map(|_| "ok").map_err(|e| e.to_string()), prov::PayloadType::from_str(s).map(|_| "ok").map_err(|e| e.to_string()))))) }
+    for s in ["zz", "0", "\u{20ac}"] { v.push((format!("Hash / KeyIdentifier / uri from_str({s:?})"), Box::new(move || format!("{:?} {:?} {:?} {:?}", Hash::from_str(s).map(|_| "ok").map_err(|e| e.to_string()), KeyIdentifier::from_str(s).map(|_| "ok").map_err(|e| e.to_string()),
+        uri::Rsync::from_str(s).map(|_| "ok").map_err(|e| e.to_string()), uri::Https::from_str(s).map(|_| "ok").map_err(|e| e.to_string()))))) }
+    for s in ["A", "QUJ", "QU=D", "QUJD!", "===="] { v.push((format!("base64 decode of {s:?} (util decoder, Base64 Deserialize)"), Box::new(move || format!("{:?} {:?}", rpki::util::base64::Xml.decode(s).map(|_| "ok").map_err(|e| e.to_string()),
+        serde_json::from_value::<Base64>(serde_json::Value::String(s.to_string())).map(|b| b.to_bytes().len()).map_err(|e| e.to_string()))))) }
+    // larger values, and values with the same identity but other content
+    for n in [1usize, 2, 17, 100] {
+        v.push((format!("round trip of a list reply with {n} entries (same URIs, other hashes)"), Box::new(move || { let m = publ::Message::list_reply(publ::ListReply::new((0..n).map(|i| publ::ListElement::new(fx.rsyncs[[2, 3, 1][i % 3]].clone(), scale_hash(i))).collect())); format!("{:?}", pub_parse(&pub_write(&m)).map(|b| b == m)) })));
+        v.push((format!("round trip of a delta with {n} elements"), Box::new(move || { let mut l = Local::default(); scale_case(ctx, fx, &Sc::Delta(n), &mut l); format!("failed={}", l.failed) })));
+    }
+    for n in [255usize, 1024] {
+        v.push((format!("round trip of a withdraw with a tag of {n} characters"), Box::new(move || { let mut l = Local::default(); scale_case(ctx, fx, &Sc::Text(0, n), &mut l); format!("failed={}", l.failed) })));
+        v.push((format!("round trip of a publish with {n} octets of content"), Box::new(move || { let mut l = Local::default(); scale_case(ctx, fx, &Sc::Content(0, n), &mut l); format!("failed={}", l.failed) })));
+    }
+    v.push(("round trip of a list response with 3 classes of 2 certificates".into(), Box::new(move || {
+        let its = [Issued { uri: 3, la: 0, lb: 0, lc: 0, cert: 1 }, Issued { uri: 4, la: 6, lb: 8, lc: 8, cert: 2 }];
+        let m = prov::Message::list_response(hd("child"), hd("parent"), prov::ResourceClassListResponse::new((0..3).map(|j| class_of(fx, &Class { name: j, url: 1 + j, asn: j, v4: j, v6: j, time: j, signing: j, issued: its.to_vec() })).collect()));
+        format!("{:?}", prov_parse(&prov_write(&m)).map(|b| b == m))
+    })));
+    v.push(("round trip of a revoke with the same class name and sender, another key and recipient".into(), Box::new(move || {
+        let m = prov::Message::revoke(hd("child"), hd("other"), prov::RevocationRequest::new(prov::ResourceClassName::from("a\"b'c > d"), fx.keys[0]));
+        format!("{:?}", prov_parse(&prov_write(&m)).map(|b| b == m))
+    })));
+    v
+}
+
+/// Failures found in a parallel phase, reported afterwards in key order (the 200 smallest keys with their
+/// witnesses, the others counted), so that the output does not depend on thread arrival.
+struct Ordered(Mutex<(BTreeMap<u64, (String, String, String)>, BTreeMap<String, u64>)>);
+
+impl Ordered {
+    fn new() -> Self { Ordered(Mutex::new((BTreeMap::new(), BTreeMap::new()))) }
+    fn push(&self, key: u64, oracle: &str, wit: String, detail: String) {
+        let mut g = self.0.lock().unwrap();
+        let mut key = key;
+        while g.0.contains_key(&key) { key += 1 }
+        g.0.insert(key, (oracle.to_string(), wit, detail));
+        if g.0.len() > 200 { if let Some((_, (o, _, _))) = g.0.pop_last() { *g.1.entry(o).or_insert(0) += 1 } }
+    }
+    fn check(&self, key: u64, oracle: &str, wit: impl FnOnce() -> String, f: impl FnOnce() -> Result<(), String>) -> bool {
+        match guard(f) { Ok(Ok(())) => true, Ok(Err(d)) => { self.push(key, oracle, wit(), d); false } Err(p) => { self.push(key, oracle, wit(), p); false } }
+    }
+    fn flush(&self, ctx: &Ctx, sp: &Space) {
+        let mut g = self.0.lock().unwrap();
+        if !g.0.is_empty() { sp.outcomes_n("oracle-violated", g.0.len() as u64 + g.1.values().sum::<u64>()) }
+        for (_, (o, w, d)) in std::mem::take(&mut g.0) { ctx.fail(&o, w, d) }
+        for (o, n) in std::mem::take(&mut g.1) { for _ in 0..n { ctx.fail(&o, "(further failures of this oracle, not kept)", "") } }
+    }
+}
+
+/// What the sequence spaces share: built once.
+struct Shared<'a> { fx: &'a Fx, menu: Vec<(&'static str, AnyMsg)>, docs: Vec<Vec<u8>>, files: Files }
+
+impl<'a> Shared<'a> {
+    fn load(fx: &'a Fx) -> Self {
+        let menu = message_menu(fx);
+        let docs = menu.iter().map(|(_, m)| on_fresh_thread(|| guard(|| m.to_vec()).unwrap_or_default())).collect();
+        Shared { fx, menu, docs, files: Files::load() }
+    }
+}
+
+fn history_predecessors(h: &Hist, thorough: bool) -> Vec<Pred> {
+    let mut v = Vec::new();
+    for (msg, (_, m)) in h.menu.iter().enumerate() {
+        let len = h.docs[msg].len();
+        let thin = if thorough { HashSet::new() } else { thinned_base64(&h.docs[msg]) };
+        let own = m.parser();
+        let next = PARSERS[(PARSERS.iter().position(|p| *p == own).unwrap_or(0) + 1) % PARSERS.len()];
+        for k in 0..=len + 1 {
+            v.push(Pred::FailWrite { msg, k, fault: Fault::Error });
+            if thin.contains(&k) { continue }
+            v.push(Pred::FailWrite { msg, k, fault: Fault::Panic });
+            if !m.uses_encoder_writer() {
+                v.push(Pred::FailWrite { msg, k, fault: Fault::Zero });
+                v.push(Pred::SliceWrite { msg, k, cursor: false });
+                if thorough { v.push(Pred::SliceWrite { msg, k, cursor: true }) }
+            }
+        }
+        for k in 0..len {
+            if thin.contains(&k) { continue }
+            v.push(Pred::ParseCut { msg, k, parser: own });
+            if k % 5 == 0 { v.push(Pred::ParseCut { msg, k, parser: next }) }
+            match k % 7 { 0 => v.push(Pred::ParseSub { msg, k, byte: b'<' }), 3 => v.push(Pred::ParseSub { msg, k, byte: b'&' }), 5 => v.push(Pred::ParseSub { msg, k, byte: b'"' }), _ => {} }
+        }
+        v.push(Pred::Roundtrip { msg });
+    }
+    for (val, s) in h.shown.iter().enumerate() {
+        let len = guard(|| s.value.to_string().len()).unwrap_or(0);
+        for k in 0..=len { if len <= 700 || k <= 300 || k + 3 >= len { v.push(Pred::FmtFail { val, k }) } }
+    }
+    for i in 0..h.other.len() { v.push(Pred::Other(i)) }
+    v
+}
+
+fn space_history(ctx: &Ctx, sh: &Shared) {
+    let thorough = ctx.tier.is_thorough();
+    let sp = ctx.space("history.independent",
+        "sequences on one dedicated OS thread (std::thread, fresh thread-locals): one predecessor, then every subject once (the first subject rotates with the predecessor's number, so that every subject is met first after every kind of predecessor; thorough: then every subject again in reverse order); each observation (document written, well-formedness verdict, parse result, equality; all as text) must equal the one the same subject gives when it is the first thing a new thread does. Subjects: the round trip of one message of every type of the three protocols (24 messages), rejections by each of the 6 parsers, Display of every value type, the to_xml_* family, not-after times, CMS wrappers, identity-certificate validation, value constructors. Predecessors, for EVERY message of the menu: write_xml into a sink that returns an error after k octets for every k up to the document length + 1; into a sink that panics / answers Ok(0) / a `&mut [u8]` of k octets for every k (quick: inside long base64 runs every 61st k; Ok(0) kinds not for documents written through base64's EncoderWriter); the document cut after every k into its parser (every 5th into another parser), '<' '&' '\"' substituted at every 7th offset; a successful round trip; Display of every value into a fmt::Write failing after every k; CMS decode / validate / create failing at every stage; constructors refusing; larger and same-identity values. thorough: additionally all ordered pairs of a menu of predecessors taken at a prime stride. non-trivial = sequences whose predecessor took an error or panic path");
+    let shown = shown_values(sh.fx, &sh.menu);
+    let signer = rpki_verif::engine::signer::PoolSigner::load();
+    let h = Hist { menu: &sh.menu, docs: &sh.docs, shown: &shown, other: other_predecessors(ctx, sh.fx, &sh.files, &signer) };
+    let subjects = history_subjects(sh.fx, &sh.menu, &sh.docs, &shown, &sh.files);
+    let ns = subjects.len();
+    let baseline: Vec<String> = subjects.iter().map(|(_, f)| on_fresh_thread(|| observe(f.as_ref()))).collect();
+    if std::env::var_os("C11_TIMING").is_some() { for (n, f) in &subjects { let t = std::time::Instant::now(); for _ in 0..20 { observe(f.as_ref()); } eprintln!("[subject] {:>8.1} us  {n}", t.elapsed().as_secs_f64() * 1e6 / 20.0) } }
+    let fails = Ordered::new();
+    // the baseline itself must be reproducible, or nothing can be compared with it
+    for (i, ((name, f), b)) in subjects.iter().zip(&baseline).enumerate() {
+        let again = on_fresh_thread(|| observe(f.as_ref()));
+        if again != *b { fails.push(i as u64, "C11.history.independent", format!("subject {name:?} as the first operation of two new threads"), format!("observed {} -- and {}", trunc(&first_difference(&again, b), 300), trunc(&first_difference(b, &again), 300))) }
+    }
+    let run_sequence = |order: u64, preds: &[&Pred]| {
+        let (pre_obs, obs): (Vec<String>, Vec<(usize, bool, String)>) = on_fresh_thread(|| {
+            let pre: Vec<String> = preds.iter().map(|p| observe(&|| p.run(&h))).collect();
+            let mut out = Vec::with_capacity(2 * ns);
+            let s0 = order as usize % ns;
+            for j in 0..ns { let i = (s0 + j) % ns; out.push((i, false, observe(subjects[i].1.as_ref()))) }
+            if thorough { for j in (0..ns).rev() { let i = (s0 + j) % ns; out.push((i, true, observe(subjects[i].1.as_ref()))) } }
+            (pre, out)
+        });
+        let failed_path = pre_obs.iter().any(|o| o.contains("Err(") || o.starts_with("PANIC"));
+        sp.evals(obs.len() as u64);
+        if failed_path { sp.nontrivial(1); sp.outcome("after-a-failed-operation") } else { sp.outcome("after-a-successful-operation") }
+        for (pos, (i, rev, o)) in obs.into_iter().enumerate() {
+            if o != baseline[i] {
+                let names: Vec<String> = preds.iter().map(|p| p.name(&h)).collect();
+                fails.push((order + 1) << 12 | pos as u64, "C11.history.independent",
+                    format!("after [{}]: {}{}", names.join("; then "), subjects[i].0, if rev { " (second, reverse pass)" } else if pos == 0 { " (first subject)" } else { "" }),
+                    format!("observed {} -- as the first operation of a new thread the same subject gives {}", trunc(&first_difference(&o, &baseline[i]), 400), trunc(&first_difference(&baseline[i], &o), 400)));
+            }
+        }
+    };
+    let preds = history_predecessors(&h, thorough);
+    preds.par_iter().enumerate().for_each(|(pi, p)| run_sequence(pi as u64, &[p]));
+    let mut bound = format!("{} predecessors x {} subjects{}", preds.len(), ns, if thorough { " x 2 passes" } else { "" });
+    if thorough {
+        let stride = [1usize, 211, 307, 401, 503, 601, 701, 809, 907, 1009, 1511, 2003].into_iter().find(|s| preds.len() / s <= 260).unwrap_or(2003);
+        let menu: Vec<&Pred> = preds.iter().step_by(stride).collect();
+        let n = menu.len();
+        (0..n * n).into_par_iter().for_each(|ij| run_sequence((1 << 40) | ij as u64, &[menu[ij / n], menu[ij % n]]));
+        bound.push_str(&format!("; {} ordered pairs of {n} predecessors (every {stride}th)", n * n));
+    }
+    fails.flush(ctx, &sp);
+    let mut kinds: BTreeMap<&'static str, u64> = BTreeMap::new();
+    for p in &preds { *kinds.entry(match p { Pred::FailWrite { fault: Fault::Error, .. } => "write into a sink returning an error after k octets", Pred::FailWrite { fault: Fault::Zero, .. } => "write into a sink answering Ok(0) after k octets",
+        Pred::FailWrite { fault: Fault::Panic, .. } => "write into a sink panicking after k octets", Pred::SliceWrite { .. } => "write into a `&mut [u8]` of k octets", Pred::FmtFail { .. } => "Display into a fmt::Write failing after k octets",
+        Pred::ParseCut { .. } => "parse of a document cut after k octets", Pred::ParseSub { .. } => "parse of a document with one octet substituted", Pred::Roundtrip { .. } => "successful round trip", Pred::Other(_) => "decode pipelines, constructors, larger values" }).or_insert(0) += 1 }
+    sp.set("predecessors_by_kind", serde_json::json!(kinds));
+    sp.set("subjects", serde_json::json!(subjects.iter().map(|s| s.0.clone()).collect::<Vec<_>>()));
+    sp.set("menu_documents", serde_json::json!(sh.menu.iter().zip(&sh.docs).map(|((n, _), d)| format!("{n}: {} octets", d.len())).collect::<Vec<_>>()));
+    sp.sample_str(|| preds[preds.len() / 3].name(&h));
+    sp.sample_str(|| preds[preds.len() * 2 / 3].name(&h));
+    sp.done(true, &bound);
+}
+
+//--- environment
+
+/// All subject observations, one group per subject, for comparison across processes.
+fn subject_dump(sh: &Shared) -> String {
+    let shown = shown_values(sh.fx, &sh.menu);
+    history_subjects(sh.fx, &sh.menu, &sh.docs, &shown, &sh.files).iter().map(|(n, f)| format!("## {n}\n{}\n", on_fresh_thread(|| observe(f.as_ref())))).collect()
+}
+
+fn space_environment(ctx: &Ctx, sh: &Shared) {
+    let sp = ctx.space("environment.timezone",
+        "the history subjects (every message type written and parsed, the time-carrying provisioning messages with every not-after of the alphabet and with offsets / fractions respelled, CMS and identity-certificate validation at fixed instants and against the clock) evaluated in child processes of this binary started with TZ=UTC0, TZ=XXX+12 (west) and TZ=XXX-14 (east): every observation equals the one made in this process; non-trivial = the two non-UTC zones");
+    let here = subject_dump(sh);
+    let n = here.matches("\n## ").count() as u64 + 1;
+    let exe = match std::env::current_exe() { Ok(e) => e, Err(e) => { ctx.machinery_error(format!("current_exe: {e}")); sp.done(false, "not run"); return } };
+    for (i, tz) in ["UTC0", "XXX+12", "XXX-14"].into_iter().enumerate() {
+        sp.evals(n);
+        if i > 0 { sp.nontrivial(1) }
+        sp.outcome(if i == 0 { "utc" } else { "shifted-zone" });
+        match std::process::Command::new(&exe).arg("--c11-subject-dump").arg(ctx.tier.name()).env("TZ", tz).output() {
+            Err(e) => ctx.machinery_error(format!("cannot start the child process for TZ={tz}: {e}")),
+            Ok(out) => {
+                let there = String::from_utf8_lossy(&out.stdout).into_owned();
+                if !out.status.success() && there.is_empty() { ctx.machinery_error(format!("child process for TZ={tz} failed: {}", String::from_utf8_lossy(&out.stderr))); continue }
+                if there != here {
+                    let a: Vec<&str> = here.split("## ").collect(); let b: Vec<&str> = there.split("## ").collect();
+                    let k = a.iter().zip(&b).position(|(x, y)| x != y).unwrap_or(0);
+                    sp.outcome("oracle-violated");
+                    ctx.fail("C11.environment.timezone", format!("TZ={tz} subject {:?}", a.get(k).and_then(|x| x.lines().next()).unwrap_or("?")),
+                        format!("observed {} -- with the parent's environment {}", trunc(&first_difference(b.get(k).unwrap_or(&""), a.get(k).unwrap_or(&"")), 300), trunc(&first_difference(a.get(k).unwrap_or(&""), b.get(k).unwrap_or(&"")), 300)));
+                }
+            }
+        }
+    }
+    sp.sample_str(|| "TZ=XXX+12: all subjects".into());
+    sp.done(true, &format!("3 zones x {n} subjects"));
+}
+
+//--- call parameters
+
+/// `padded` must be `canon` itself or `canon` padded with `fill` to `width` on the side(s) the alignment says.
+fn padding_ok(canon: &str, padded: &str, fill: char, width: usize) -> Result<(), String> {
+    if padded == canon { return Ok(()) }
+    let total = padded.chars().count();
+    let cl = canon.chars().count();
+    if total != width.max(cl) { return Err(format!("{total} characters for width {width}, value has {cl}")) }
+    // the value may itself start or end with the fill character: try every split of the padding
+    for l in 0..=total - cl {
+        let body: String = padded.chars().skip(l).take(cl).collect();
+        if body == canon && padded.chars().take(l).all(|c| c == fill) && padded.chars().skip(l + cl).all(|c| c == fill) { return Ok(()) }
+    }
+    Err("the value is not contained unchanged between the fill characters".into())
+}
+
+fn space_display(ctx: &Ctx, sh: &Shared) {
+    let sp = ctx.space("call_parameters.display",
+        "Display of Handle, ServiceUri, ResourceClassName, PayloadType, ReportErrorCode, rrdp::Hash, KeyIdentifier, uri::Rsync, uri::Https, Base64, RequestResourceLimit, IssuanceRequest, KeyElement, NotPerformedResponse, ErrorReply, the four RFC 8183 messages and two error types, through to_string(), format!(\"{}\") and with width 0,1,10,63,64,65,70,300 x alignment default/</>/^ x fill space/*/0 and the {:0w} form: to_string() equals the plain text; a formatted text is the plain text, unchanged, or that text padded with the fill to the width; with the padding removed it parses back (FromStr / parse) to the value where the type has a way back; non-trivial = widths larger than the plain text");
+    let shown = shown_values(sh.fx, &sh.menu);
+    let fails = Ordered::new();
+    let widths = [0usize, 1, 10, 63, 64, 65, 70, 300];
+    shown.par_iter().enumerate().for_each(|(vi, s)| {
+        let (name, v, back) = (&s.name, &s.value, &s.back);
+        let canon = match guard(|| format!("{v}")) { Ok(c) => c, Err(p) => { fails.push((vi as u64) << 20, "C11.call_parameters.display", name.clone(), p); return } };
+        sp.eval(); sp.outcome("to_string");
+        fails.check((vi as u64) << 20 | 1, "C11.call_parameters.display", || format!("{name}.to_string()"), || {
+            if v.to_string() != canon { return Err("to_string() differs from format!(\"{}\")".into()) }
+            if !back(&canon) { return Err(format!("{:?} does not parse back to the value", trunc(&canon, 200))) }
+            Ok(())
+        });
+        for (wi, &w) in widths.iter().enumerate() {
+            macro_rules! spec { ($k:expr, $text:expr, $fill:expr, $fmt:literal) => { spec!($k, $text, $fill, $fmt, $fill) }; ($k:expr, $text:expr, $fill:expr, $fmt:literal, $alt:expr) => {{
+                sp.eval(); if w > canon.chars().count() { sp.nontrivial(1) }
+                sp.outcome(if w > canon.chars().count() { "wider-than-text" } else { "not-wider" });
+                fails.check((vi as u64) << 20 | (wi as u64 + 1) << 8 | $k, "C11.call_parameters.display", || format!("format!(\"{}\", {name}) with w={w}", $text), || {
+                    let padded = format!($fmt, v, w = w);
+                    // (the `0` flag without an explicit fill is a numeric notion: a text-like Display may pad with spaces)
+                    let fill: char = if padding_ok(&canon, &padded, $fill, w).is_ok() { $fill } else { $alt };
+                    padding_ok(&canon, &padded, fill, w).map_err(|e| format!("{e}: {:?} vs plain {:?}", trunc(&padded, 300), trunc(&canon, 300)))?;
+                    let cl = canon.chars().count();
+                    let n = padded.chars().count();
+                    let stripped = (0..=n - cl).map(|l| padded.chars().skip(l).take(cl).collect::<String>()).find(|b| *b == canon).unwrap_or_else(|| padded.clone());
+                    if !back(&stripped) { return Err(format!("{:?} (padding removed) does not parse back to the value", trunc(&stripped, 200))) }
+                    Ok(())
+                });
+            }}}
+            spec!(0, "{:w$}", ' ', "{:w$}"); spec!(1, "{:<w$}", ' ', "{:<w$}"); spec!(2, "{:>w$}", ' ', "{:>w$}"); spec!(3, "{:^w$}", ' ', "{:^w$}");
+            spec!(4, "{:*<w$}", '*', "{:*<w$}"); spec!(5, "{:*>w$}", '*', "{:*>w$}"); spec!(6, "{:*^w$}", '*', "{:*^w$}");
+            spec!(7, "{:0<w$}", '0', "{:0<w$}"); spec!(8, "{:0>w$}", '0', "{:0>w$}"); spec!(9, "{:0^w$}", '0', "{:0^w$}"); spec!(10, "{:0w$}", '0', "{:0w$}", ' ');
+        }
+    });
+    fails.flush(ctx, &sp);
+    sp.set("values", serde_json::json!(shown.iter().map(|s| s.name.clone()).collect::<Vec<_>>()));
+    sp.sample_str(|| format!("{:*^70}", sh.fx.handle::<idx::Myself>(3)));
+    sp.done(true, &format!("{} values x (to_string + 8 widths x 11 format specs)", shown.len()));
+}
+
+/// The sink kinds a caller may hand to write_xml.
+#[derive(Clone, Copy, Debug, PartialEq, Eq)]
+enum SinkKind { Vec, DynWrite, Cursor, SliceExact, SliceLarger, BufWriter(usize), LineWriter, Chunk(usize), Interrupting, Vectored }
+
+const SINKS: [SinkKind; 16] = [SinkKind::Vec, SinkKind::DynWrite, SinkKind::Cursor, SinkKind::SliceExact, SinkKind::SliceLarger, SinkKind::BufWriter(1), SinkKind::BufWriter(7), SinkKind::BufWriter(8192),
+    SinkKind::LineWriter, SinkKind::Chunk(1), SinkKind::Chunk(2), SinkKind::Chunk(3), SinkKind::Chunk(7), SinkKind::Chunk(64), SinkKind::Interrupting, SinkKind::Vectored];
+
+/// Accepts at most `max` octets per call; `interrupt`: every other call fails with ErrorKind::Interrupted
+/// (which io::Write::write_all and every conforming caller retries).
+struct ShortSink { max: usize, interrupt: bool, calls: usize, got: Vec<u8> }
+impl io::Write for ShortSink {
+    fn write(&mut self, buf: &[u8]) -> io::Result<usize> {
+        self.calls += 1;
+        if self.interrupt && self.calls % 2 == 1 { return Err(io::Error::new(io::ErrorKind::Interrupted, "interrupted")) }
+        let n = self.max.min(buf.len());
+        self.got.extend_from_slice(&buf[..n]);
+        Ok(n)
+    }
+    fn flush(&mut self) -> io::Result<()> { Ok(()) }
+}
+
+/// A sink that prefers vectored writes (and takes the first non-empty buffer of each only).
+struct VectoredSink { got: Vec<u8> }
+impl io::Write for VectoredSink {
+    fn write(&mut self, buf: &[u8]) -> io::Result<usize> { self.got.extend_from_slice(buf); Ok(buf.len()) }
+    fn write_vectored(&mut self, bufs: &[io::IoSlice<'_>]) -> io::Result<usize> {
+        match bufs.iter().find(|b| !b.is_empty()) { Some(b) => { self.got.extend_from_slice(b); Ok(b.len()) } None => Ok(0) }
+    }
+    fn flush(&mut self) -> io::Result<()> { Ok(()) }
+}
+
+/// Writes `m` `times` times into a sink of kind `k`; what arrived.
+fn write_into(m: &AnyMsg, k: SinkKind, times: usize, doc_len: usize) -> Result<Vec<u8>, String> {
+    let e = |e: io::Error| format!("write_xml fails: {e}");
+    match k {
+        SinkKind::Vec => { let mut v = Vec::new(); for _ in 0..times { m.write_xml(&mut v).map_err(e)? } Ok(v) }
+        SinkKind::DynWrite => { let mut v = Vec::new(); { let mut d: &mut dyn io::Write = &mut v; for _ in 0..times { m.write_xml(&mut d).map_err(e)? } } Ok(v) }
+        SinkKind::Cursor => { let mut c = io::Cursor::new(Vec::new()); for _ in 0..times { m.write_xml(&mut c).map_err(e)? } Ok(c.into_inner()) }
+        SinkKind::SliceExact | SinkKind::SliceLarger => {
+            let extra = if k == SinkKind::SliceLarger { 10 } else { 0 };
+            let mut buf = vec![0x55u8; doc_len * times + extra];
+            let left = { let mut s: &mut [u8] = &mut buf[..]; for _ in 0..times { m.write_xml(&mut s).map_err(e)? } s.len() };
+            if left != extra { return Err(format!("{left} octets of the slice left, {extra} expected")) }
+            if buf[doc_len * times..].iter().any(|b| *b != 0x55) { return Err("octets beyond the document were touched".into()) }
+            buf.truncate(doc_len * times);
+            Ok(buf)
+        }
+        SinkKind::BufWriter(cap) => { let mut w = io::BufWriter::with_capacity(cap, Vec::new()); for _ in 0..times { m.write_xml(&mut w).map_err(e)? } w.into_inner().map_err(|e| format!("BufWriter::into_inner: {}", e.error())) }
+        SinkKind::LineWriter => { let mut w = io::LineWriter::new(Vec::new()); for _ in 0..times { m.write_xml(&mut w).map_err(e)? } w.into_inner().map_err(|e| format!("LineWriter::into_inner: {}", e.error())) }
+        SinkKind::Chunk(n) => { let mut s = ShortSink { max: n, interrupt: false, calls: 0, got: Vec::new() }; for _ in 0..times { m.write_xml(&mut s).map_err(e)? } Ok(s.got) }
+        SinkKind::Interrupting => { let mut s = ShortSink { max: 5, interrupt: true, calls: 0, got: Vec::new() }; for _ in 0..times { m.write_xml(&mut s).map_err(e)? } Ok(s.got) }
+        SinkKind::Vectored => { let mut s = VectoredSink { got: Vec::new() }; for _ in 0..times { m.write_xml(&mut s).map_err(e)? } Ok(s.got) }
+    }
+}
+
+fn space_sinks(ctx: &Ctx, sh: &Shared) {
+    let sp = ctx.space("call_parameters.sinks",
+        "every writer entry point (write_xml of the six message types; to_xml_bytes / to_xml_vec, to_xml_string, Display and to_string where they exist; ProvisioningCms::create / PublicationCms::create, whose signed content is read back) for every message of the menu (one per message type of the three protocols and more) into every sink kind: Vec, `&mut dyn Write`, io::Cursor<Vec>, a `&mut [u8]` of exactly the document's size and 10 octets larger, BufWriter of capacity 1 / 7 / 8192, LineWriter, sinks that accept at most 1 / 2 / 3 / 7 / 64 octets per call, a sink that answers every other call with ErrorKind::Interrupted, a sink taking vectored writes; the message written once and twice in a row into the same sink: the octets that arrive are exactly the document (twice: the document twice) the first evaluation of the message on a new thread gave, and they parse back to the message; non-trivial = short-write, interrupting and buffering sinks");
+    let fails = Ordered::new();
+    let signer = rpki_verif::engine::signer::PoolSigner::load();
+    sh.menu.par_iter().enumerate().for_each(|(mi, (name, m))| {
+        let canon = &sh.docs[mi];
+        let mut oc: BTreeMap<&'static str, u64> = BTreeMap::new();
+        let (mut n, mut nt) = (0u64, 0u64);
+        for (ki, k) in SINKS.iter().enumerate() { for times in [1usize, 2] {
+            // an Ok(0)-prone sink is never full here; the interrupting sink is left out for documents written
+            // through base64's EncoderWriter, whose Drop gives up on an interrupted final write (dependency
+            // behaviour; see the report)
+            if *k == SinkKind::Interrupting && m.uses_encoder_writer() { continue }
+            n += 1;
+            let plain = matches!(k, SinkKind::Vec | SinkKind::DynWrite | SinkKind::Cursor | SinkKind::SliceExact | SinkKind::SliceLarger);
+            if !plain { nt += 1 }
+            *oc.entry(if plain { "plain-sink" } else if *k == SinkKind::Interrupting { "interrupting-sink" } else if matches!(k, SinkKind::Chunk(_) | SinkKind::Vectored) { "short-write-sink" } else { "buffering-sink" }).or_insert(0) += 1;
+            fails.check((mi as u64) << 16 | (ki as u64) << 4 | times as u64, "C11.call_parameters.sinks", || format!("write_xml of {name} {times}x into {k:?}"), || {
+                let got = write_into(m, *k, times, canon.len())?;
+                let want: Vec<u8> = canon.iter().copied().cycle().take(canon.len() * times).collect();
+                if got != want { return Err(format!("{} octets arrived, the document has {} x {times}; {}", got.len(), canon.len(), trunc(&first_difference(&text(&got), &text(&want)), 300))) }
+                Ok(())
+            });
+        }}
+        // the other entry points
+        n += 1; *oc.entry("entry-points").or_insert(0) += 1;
+        fails.check((mi as u64) << 16 | 0xFFF0, "C11.call_parameters.entry_points", || format!("to_xml_bytes / to_xml_string / Display / to_string of {name}"), || {
+            if m.to_vec() != *canon { return Err("to_xml_bytes / to_xml_vec differs from the document written first".into()) }
+            if m.to_xml_string().as_bytes() != canon.as_slice() { return Err("to_xml_string differs from the document".into()) }
+            if let Some(d) = m.display() {
+                if d.to_string().as_bytes() != canon.as_slice() { return Err("to_string() differs from the document".into()) }
+                if format!("{d}").as_bytes() != canon.as_slice() { return Err("Display differs from the document".into()) }
+                let mut s = String::new(); { use std::fmt::Write as _; write!(s, "{d}|{d}").map_err(|e| e.to_string())? }
+                if s.as_bytes() != [canon.as_slice(), b"|", canon.as_slice()].concat() { return Err("Display written twice into one String differs".into()) }
+            }
+            match AnyMsg::parse(m.parser(), canon) { Ok(b) if b == *m => Ok(()), Ok(_) => Err("the document parses back unequal".into()), Err(e) => Err(format!("the document does not parse back: {e}")) }
+        });
+        // the CMS entry points: the signed content is the document
+        if matches!(m, AnyMsg::Prov(_) | AnyMsg::Pub(_)) {
+            n += 1; nt += 1; *oc.entry("cms-create").or_insert(0) += 1;
+            fails.check((mi as u64) << 16 | 0xFFF1, "C11.call_parameters.entry_points", || format!("Cms::create of {name}"), || {
+                use rpki_verif::engine::signer::Kid;
+                let (content, same) = match m {
+                    AnyMsg::Prov(m) => { let cms = prov::ProvisioningCms::create(m.clone(), &Kid(0), &signer).map_err(|e| format!("create: {e}"))?;
+                        let back = prov::ProvisioningCms::decode(cms.to_bytes().as_ref()).map_err(|e| format!("decode of the created CMS: {e}"))?;
+                        (back.clone().unpack().0.content().to_bytes(), back.message() == m && cms.message() == m) }
+                    AnyMsg::Pub(m) => { let cms = publ::PublicationCms::create(m.clone(), &Kid(0), &signer).map_err(|e| format!("create: {e}"))?;
+                        let back = publ::PublicationCms::decode(cms.to_bytes().as_ref()).map_err(|e| format!("decode of the created CMS: {e}"))?;
+                        (back.clone().unpack().0.content().to_bytes(), back.into_message() == *m && cms.into_message() == *m) }
+                    _ => unreachable!(),
+                };
+                if content.as_ref() != canon.as_slice() { return Err(format!("the signed content differs from the document: {}", trunc(&first_difference(&text(content.as_ref()), &text(canon)), 300))) }
+                if !same { return Err("the message in the created / decoded CMS differs".into()) }
+                Ok(())
+            });
+        }
+        sp.evals(n); sp.nontrivial(nt); sp.merge_outcomes(&oc);
+    });
+    fails.flush(ctx, &sp);
+    sp.set("sinks", serde_json::json!(SINKS.iter().map(|k| format!("{k:?}")).collect::<Vec<_>>()));
+    sp.sample_str(|| format!("write_xml of {} 2x into Chunk(3)", sh.menu[2].0));
+    sp.done(true, &format!("{} messages x {} sink kinds x once / twice, + the other entry points", sh.menu.len(), SINKS.len()));
+}
+
+//--- handed-out parts and shared values
+
+#[derive(Clone, Copy, Debug, PartialEq, Eq)]
+enum HOp { WriteShared, ToBytes, ToString, CloneWriteDrop, DecodeOtherKeep, DecodeOtherDrop, Rebuild, FailedWrite, Redecode, Sweep }
+const HOPS: [HOp; 10] = [HOp::WriteShared, HOp::ToBytes, HOp::ToString, HOp::CloneWriteDrop, HOp::DecodeOtherKeep, HOp::DecodeOtherDrop, HOp::Rebuild, HOp::FailedWrite, HOp::Redecode, HOp::Sweep];
+
+fn space_handed_out(ctx: &Ctx, sh: &Shared) {
+    let sp = ctx.space("handed_out.sequences",
+        "every message of the menu decoded from ONE buffer that holds the documents of all menu messages, then every sequence of 0..=3 operations over {write_xml appended to a shared Vec, to_xml_bytes, to_xml_string / Display, clone + write the clone + drop it, decode another message from the same buffer and keep it / drop it, take the message apart through unpack / into_* / the accessors and build it again through the constructors (kept alive), a write_xml that fails half way, decode the message again from the buffer (the old value dropped), the accessor sweep}: every write gives exactly the document, the other decoded and the rebuilt messages give theirs (also after the sequence), the rebuilt message equals the decoded one, the message still equals its constructed twin and the buffer is unchanged; non-trivial = sequences with a write after a decode / rebuild / failed write");
+    let mut buf: Vec<u8> = Vec::new();
+    let mut regions: Vec<(usize, usize)> = Vec::new();
+    for d in &sh.docs { buf.extend_from_slice(b"\n<!-- next document -->\n"); let a = buf.len(); buf.extend_from_slice(d); regions.push((a, buf.len())) }
+    let pristine = buf.clone();
+    let seqs = sequences(HOPS.len(), 3);
+    let fails = Ordered::new();
+    let nm = sh.menu.len();
+    sh.menu.par_iter().enumerate().for_each(|(mi, (name, m0))| {
+        let mut oc: BTreeMap<&'static str, u64> = BTreeMap::new();
+        let mut nt = 0u64;
+        let canon = &sh.docs[mi];
+        let (a, b) = regions[mi];
+        for (si, seq) in seqs.iter().enumerate() {
+            let ops: Vec<HOp> = seq.iter().map(|i| HOPS[*i]).collect();
+            let is_write = |o: &HOp| matches!(o, HOp::WriteShared | HOp::ToBytes | HOp::ToString | HOp::CloneWriteDrop);
+            let disturbed = ops.iter().enumerate().any(|(i, o)| is_write(o) && ops[..i].iter().any(|p| !is_write(p) && *p != HOp::Sweep));
+            if disturbed { nt += 1 }
+            *oc.entry(if ops.contains(&HOp::FailedWrite) { "with-a-failed-write" } else if disturbed { "write-after-decode-or-rebuild" } else { "undisturbed" }).or_insert(0) += 1;
+            fails.check((mi as u64) << 20 | si as u64, "C11.handed_out.sequences", || format!("{name} decoded from the shared buffer, then {ops:?}"), || {
+                let p = m0.parser();
+                let mut m = AnyMsg::parse(p, &buf[a..b]).map_err(|e| format!("the document does not parse: {e}"))?;
+                if m != *m0 { return Err("the decoded message differs from the constructed one".into()) }
+                let mut out: Vec<u8> = Vec::new();
+                let mut kept: Vec<(usize, AnyMsg)> = Vec::new();
+                let same = |got: &[u8], want: &[u8], what: &str| if got == want { Ok(()) } else { Err(format!("{what}: {}", trunc(&first_difference(&text(got), &text(want)), 300))) };
+                for (step, op) in ops.iter().enumerate() {
+                    let oi = (mi + 1 + step * 5) % nm;
+                    let at = format!("step {step} {op:?}");
+                    match op {
+                        HOp::WriteShared => { let before = out.len(); m.write_xml(&mut out).map_err(|e| format!("{at}: {e}"))?; same(&out[before..], canon, &at)? }
+                        HOp::ToBytes => same(&m.to_vec(), canon, &at)?,
+                        HOp::ToString => { same(m.to_xml_string().as_bytes(), canon, &at)?; if let Some(d) = m.display() { same(d.to_string().as_bytes(), canon, &at)? } }
+                        HOp::CloneWriteDrop => { let c = m.clone(); same(&c.to_vec(), canon, &at)?; drop(c) }
+                        HOp::DecodeOtherKeep | HOp::DecodeOtherDrop => {
+                            let (oa, ob) = regions[oi];
+                            let o = AnyMsg::parse(sh.menu[oi].1.parser(), &buf[oa..ob]).map_err(|e| format!("{at}: {} does not parse: {e}", sh.menu[oi].0))?;
+                            if o != sh.menu[oi].1 { return Err(format!("{at}: {} decodes to another message", sh.menu[oi].0)) }
+                            same(&o.to_vec(), &sh.docs[oi], &at)?;
+                            if *op == HOp::DecodeOtherKeep { kept.push((oi, o)) }
+                        }
+                        HOp::Rebuild => if let Some(r) = m.rebuild() {
+                            if r != m { return Err(format!("{at}: the message built from the parts differs from the decoded one")) }
+                            same(&r.to_vec(), canon, &at)?;
+                            kept.push((mi, r));
+                        },
+                        HOp::FailedWrite => { let mut s = FaultySink::new(canon.len() / 2, Fault::Error); let _ = m.write_xml(&mut s); }
+                        HOp::Redecode => m = AnyMsg::parse(p, &buf[a..b]).map_err(|e| format!("{at}: {e}"))?,
+                        HOp::Sweep => { m.sweep().map_err(|e| format!("{at}: {e}"))?; }
+                    }
+                }
+                same(&m.to_vec(), canon, "after the sequence")?;
+                if m != *m0 { return Err("after the sequence the message differs from the constructed one".into()) }
+                for (i, k) in &kept { same(&k.to_vec(), &sh.docs[*i], &format!("after the sequence, kept {}", sh.menu[*i].0))? }
+                if buf != pristine { return Err("the shared buffer changed".into()) }
+                Ok(())
+            });
+        }
+        sp.evals(seqs.len() as u64); sp.nontrivial(nt); sp.merge_outcomes(&oc);
+    });
+    fails.flush(ctx, &sp);
+    sp.set("operations", serde_json::json!(HOPS.iter().map(|o| format!("{o:?}")).collect::<Vec<_>>()));
+    sp.sample_str(|| format!("{} decoded from the shared buffer, then [DecodeOtherKeep, FailedWrite, WriteShared]", sh.menu[2].0));
+    sp.done(true, &format!("{} messages x {} sequences (length <= 3 over {} operations)", nm, seqs.len(), HOPS.len()));
+}
+
+/// The field values of one message, by value: who else holds their buffers is the dimension.
+#[derive(Clone)]
+struct Vals { h1: idx::Handle<idx::Myself>, h2: idx::Handle<idx::Myself>, rsync: uri::Rsync, rsync2: uri::Rsync, https: uri::Https, svc: idx::ServiceUri, b64: Base64,
+    tag: Option<String>, class: prov::ResourceClassName, cert: Cert, csr: RpkiCaCsr, hash: Hash, key: KeyIdentifier }
+
+struct ValTexts { h1: String, h2: String, rsync: String, rsync2: String, https: String, svc: String, content: Vec<u8>, tag: Option<String>, class: String }
+
+fn val_texts(set: usize) -> ValTexts {
+    match set {
+        0 => ValTexts { h1: "child".into(), h2: "parent".into(), rsync: "rsync://h/m/a.cer".into(), rsync2: "rsync://h/m/".into(), https: "https://h/n.xml".into(), svc: "https://h/s".into(), content: b"abc".to_vec(), tag: Some("t".into()), class: "c".into() },
+        1 => ValTexts { h1: "A/b_c-9".into(), h2: "-".into(), rsync: "rsync://a&b/m'/x&y".into(), rsync2: "rsync://h/m/''&&/".into(), https: "https://a&b'c/x&y".into(), svc: SVC_SPECIAL.into(), content: b"<&\"'".to_vec(), tag: Some("t<&\"'>1".into()), class: "a\"b'c > d".into() },
+        _ => ValTexts { h1: "a".repeat(255), h2: "/".repeat(255), rsync: format!("rsync://h/m/{}", "a&".repeat(150)), rsync2: format!("rsync://h/m/{}/", "d'".repeat(150)), https: format!("https://h/{}", "&".repeat(300)),
+            svc: format!("http://h/{}", "a&".repeat(150)), content: pattern(1000, 3), tag: None, class: long_text(300) },
+    }
+}
+
+impl Vals {
+    fn fresh(fx: &Fx, t: &ValTexts) -> Result<Vals, String> {
+        Ok(Vals { h1: idx::Handle::from_str(&t.h1).map_err(|e| e.to_string())?, h2: idx::Handle::from_str(&t.h2).map_err(|e| e.to_string())?,
+            rsync: uri::Rsync::from_str(&t.rsync).map_err(|e| e.to_string())?, rsync2: uri::Rsync::from_str(&t.rsync2).map_err(|e| e.to_string())?, https: uri::Https::from_str(&t.https).map_err(|e| e.to_string())?,
+            svc: if t.svc.starts_with("http://") { idx::ServiceUri::Http(t.svc.clone()) } else { idx::ServiceUri::from_str(&t.svc).map_err(|e| e.to_string())? },
+            b64: Base64::from_content(&t.content), tag: t.tag.clone(), class: prov::ResourceClassName::from(t.class.as_str()),
+            cert: Cert::decode(fx.certs[1].1.to_captured().as_slice()).map_err(|e| e.to_string())?, csr: RpkiCaCsr::decode(fx.csrs[0].1.to_captured().as_slice()).map_err(|e| e.to_string())?,
+            hash: fx.hashes[2], key: fx.keys[3] })
+    }
+    /// every value still reads as the text it was made from
+    fn intact(&self, fx: &Fx, t: &ValTexts) -> Result<(), String> {
+        agree!(self.h1.as_str(), t.h1.as_str(), "handle 1"); agree!(self.h2.as_str(), t.h2.as_str(), "handle 2");
+        agree!(self.rsync.as_str(), t.rsync.as_str(), "rsync URI"); agree!(self.rsync2.as_str(), t.rsync2.as_str(), "second rsync URI"); agree!(self.https.as_str(), t.https.as_str(), "https URI");
+        agree!(self.svc.as_str(), t.svc.as_str(), "service URI"); agree!(self.b64.to_bytes().as_ref(), t.content.as_slice(), "content"); agree!(self.tag, t.tag, "tag"); agree!(self.class.as_ref(), t.class.as_str(), "class name");
+        agree!(self.cert.to_captured().as_slice(), fx.certs[1].1.to_captured().as_slice(), "certificate"); agree!(self.csr.to_captured().as_slice(), fx.csrs[0].1.to_captured().as_slice(), "CSR");
+        Ok(())
+    }
+}
+
+const BUILD_KINDS: [&str; 12] = ["prov.list", "prov.list_response", "prov.issue", "prov.issue_response", "prov.revoke", "prov.revoke_response", "pub.list_reply", "pub.delta", "idex.child_request", "idex.parent_response", "idex.publisher_request", "idex.repository_response"];
+
+fn build(fx: &Fx, kind: usize, v: Vals) -> AnyMsg {
+    let limit = fx.limit(6, 8, 8);
+    let class = |v: &Vals| prov::ResourceClassEntitlements::new(v.class.clone(), ResourceSet::new(fx.asn[5].clone(), fx.v4[7].clone(), fx.v6[7].clone()), fx.times[0],
+        vec![prov::IssuedCert::new(v.rsync.clone(), limit.clone(), v.cert.clone())], prov::SigningCert::new(v.rsync2.clone(), v.cert.clone()));
+    match kind {
+        0 => AnyMsg::Prov(prov::Message::list(v.h1.convert(), v.h2.into_converted())),
+        1 => AnyMsg::Prov(prov::Message::list_response(v.h1.convert(), v.h2.convert(), prov::ResourceClassListResponse::new(vec![class(&v)]))),
+        2 => AnyMsg::Prov(prov::Message::issue(v.h1.into_converted(), v.h2.into_converted(), prov::IssuanceRequest::new(v.class, limit, v.csr))),
+        3 => { let e = class(&v); AnyMsg::Prov(prov::Message::issue_response(v.h1.convert(), v.h2.convert(), prov::IssuanceResponse::new(e.class_name().clone(), e.resource_set().clone(), e.not_after(), e.issued_certs()[0].clone(), e.signing_cert().clone()))) }
+        4 => AnyMsg::Prov(prov::Message::revoke(v.h1.convert(), v.h2.convert(), prov::RevocationRequest::new(v.class, v.key))),
+        5 => AnyMsg::Prov(prov::Message::revoke_response(v.h2.convert(), v.h1.convert(), prov::RevocationResponse::from(&prov::RevocationRequest::new(v.class, v.key)))),
+        6 => AnyMsg::Pub(publ::Message::list_reply(publ::ListReply::new(vec![publ::ListElement::new(v.rsync.clone(), v.hash), publ::ListElement::new(v.rsync2, v.hash), publ::ListElement::new(v.rsync, fx.hashes[0])]))),
+        7 => { let mut d = publ::PublishDelta::empty();
+            d.add_publish(publ::Publish::new(v.tag.clone(), v.rsync.clone(), v.b64.clone()));
+            d.add_update(publ::Update::new(v.tag.clone(), v.rsync2, v.b64, v.hash));
+            d.add_withdraw(publ::Withdraw::new(v.tag, v.rsync, v.hash));
+            AnyMsg::Pub(publ::Message::delta(d)) }
+        8 => AnyMsg::Child(idx::ChildRequest::new(v.b64, v.h1.into_converted())),
+        9 => AnyMsg::Parent(idx::ParentResponse::new(v.b64, v.h2.into_converted(), v.h1.into_converted(), v.svc, v.tag)),
+        10 => AnyMsg::Publisher(idx::PublisherRequest::new(v.b64, v.h1.into_converted(), v.tag)),
+        _ => AnyMsg::Repo(idx::RepositoryResponse::new(v.b64, v.h1.into_converted(), v.svc, v.rsync2, Some(v.https), v.tag)),
+    }
+}
+
+const FORMS: [&str; 7] = ["sole owner", "live clones of every value", "clones dropped just before", "views into larger buffers / shared Arcs", "static buffers", "parts of decoded messages, the sources alive", "parts of decoded messages, the sources dropped"];
+
+fn space_ownership(ctx: &Ctx, sh: &Shared) {
+    let fx = sh.fx;
+    let sp = ctx.space("ownership.shared_values",
+        "one message of each of 12 constructor kinds built from field values (handles, rsync / https / service URIs, base64 content, tag, class name, certificate, CSR) in 3 value sets (plain, every XML-special character, long) whose buffers are (0) solely owned, (1) shared with live clones, (2) shared with clones dropped just before, (3) views into larger Bytes buffers / Arcs shared between both handles, (4) static, (5) parts taken out of other decoded messages through unpack / into_* / accessors with the source messages alive, (6) the same with the sources dropped: the document equals the one the sole-owner twin gives, it parses back to the message, the accessor sweep holds, the other holders (clones, larger buffers, source messages) read and write unchanged afterwards and after the message is dropped, and a second message built from the holders gives the document again; non-trivial = forms 1..6");
+    let fails = Ordered::new();
+    let cases: Vec<(usize, usize, usize)> = (0..3).flat_map(|s| (0..BUILD_KINDS.len()).flat_map(move |k| (0..FORMS.len()).map(move |f| (s, k, f)))).collect();
+    cases.par_iter().for_each(|&(set, kind, form)| {
+        sp.eval(); if form > 0 { sp.nontrivial(1) }
+        sp.outcome(FORMS[form]);
+        fails.check((set * 1000 + kind * 10 + form) as u64, "C11.ownership.shared_values", || format!("{} from value set {set}, {}", BUILD_KINDS[kind], FORMS[form]), || {
+            let t = val_texts(set);
+            let twin = build(fx, kind, Vals::fresh(fx, &t)?);
+            let want = twin.to_vec();
+            let judge = |m: &AnyMsg, what: &str| -> Result<(), String> {
+                let doc = m.to_vec();
+                if doc != want { return Err(format!("{what}: the document differs from the sole-owner twin's: {}", trunc(&first_difference(&text(&doc), &text(&want)), 300))) }
+                if *m != twin { return Err(format!("{what}: the message differs from the sole-owner twin")) }
+                match AnyMsg::parse(m.parser(), &doc) { Ok(b) if b == *m => {} Ok(_) => return Err(format!("{what}: parses back unequal")), Err(e) => return Err(format!("{what}: does not parse back: {e}")) }
+                m.sweep().map(|_| ()).map_err(|e| format!("{what}: {e}"))
+            };
+            match form {
+                0 => judge(&build(fx, kind, Vals::fresh(fx, &t)?), "built"),
+                1 => { let v = Vals::fresh(fx, &t)?; let m = build(fx, kind, v.clone()); judge(&m, "built")?; v.intact(fx, &t)?; drop(m); v.intact(fx, &t)?; judge(&build(fx, kind, v), "built again from the clones") }
+                2 => { let v = Vals::fresh(fx, &t)?; drop(v.clone()); judge(&build(fx, kind, v), "built") }
+                3 => {
+                    let big = |s: &str| Bytes::from(format!("##{s}##").into_bytes());
+                    let (b1, b2, b3) = (big(&t.rsync), big(&t.rsync2), big(&t.https));
+                    let der = fx.certs[1].1.to_captured();
+                    let bigcert = Bytes::from([&b"\x30\x03abc"[..], der.as_slice(), &b"\x30\x00"[..]].concat());
+                    let arc1: std::sync::Arc<str> = t.h1.as_str().into();
+                    let mut v = Vals::fresh(fx, &t)?;
+                    v.rsync = uri::Rsync::from_bytes(b1.slice(2..2 + t.rsync.len())).map_err(|e| e.to_string())?;
+                    v.rsync2 = uri::Rsync::from_bytes(b2.slice(2..2 + t.rsync2.len())).map_err(|e| e.to_string())?;
+                    v.https = uri::Https::from_bytes(b3.slice(2..2 + t.https.len())).map_err(|e| e.to_string())?;
+                    v.cert = Cert::decode(bigcert.slice(5..5 + der.len())).map_err(|e| e.to_string())?;
+                    v.h1 = idx::Handle::new(arc1.clone());
+                    if t.h1 == t.h2 { v.h2 = idx::Handle::from(&arc1) }
+                    let m = build(fx, kind, v.clone());
+                    judge(&m, "built")?;
+                    let check = || -> Result<(), String> {
+                        agree!(&b1[..], format!("##{}##", t.rsync).as_bytes(), "the larger buffer of the rsync URI"); agree!(&b2[..], format!("##{}##", t.rsync2).as_bytes(), "the larger buffer of the second rsync URI");
+                        agree!(&b3[..], format!("##{}##", t.https).as_bytes(), "the larger buffer of the https URI"); agree!(&bigcert[5..5 + der.len()], der.as_slice(), "the larger buffer of the certificate");
+                        agree!(&*arc1, t.h1.as_str(), "the shared Arc<str>"); Ok(())
+                    };
+                    check()?; v.intact(fx, &t)?; drop(m); check()?; v.intact(fx, &t)?;
+                    judge(&build(fx, kind, v), "built again from the views")
+                }
+                4 => {
+                    let leak = |s: &str| -> &'static [u8] { Box::leak(s.as_bytes().to_vec().into_boxed_slice()) };
+                    let mut v = Vals::fresh(fx, &t)?;
+                    v.rsync = uri::Rsync::from_bytes(Bytes::from_static(leak(&t.rsync))).map_err(|e| e.to_string())?;
+                    v.rsync2 = uri::Rsync::from_bytes(Bytes::from_static(leak(&t.rsync2))).map_err(|e| e.to_string())?;
+                    v.https = uri::Https::from_bytes(Bytes::from_static(leak(&t.https))).map_err(|e| e.to_string())?;
+                    let m = build(fx, kind, v.clone());
+                    judge(&m, "built")?; drop(m); v.intact(fx, &t)?;
+                    judge(&build(fx, kind, v), "built again")
+                }
+                _ => {
+                    // source messages, written and decoded; their parts become the field values
+                    let src = |k: usize| -> Result<(AnyMsg, Vec<u8>), String> { let m = build(fx, k, Vals::fresh(fx, &t)?); let d = m.to_vec(); Ok((AnyMsg::parse(m.parser(), &d).map_err(|e| format!("source {}: {e}", BUILD_KINDS[k]))?, d)) };
+                    let sources = vec![src(3)?, src(2)?, src(7)?, src(11)?, src(4)?];
+                    let mut v = Vals::fresh(fx, &t)?;
+                    for (s, _) in &sources { match s.clone() {
+                        AnyMsg::Prov(m) => { let (sd, rc, p) = m.unpack(); match p {
+                            prov::Payload::IssueResponse(r) => { v.h1 = sd.into_converted(); v.h2 = rc.convert(); let (u, _, c) = r.into_issued().unpack(); v.rsync = u; v.cert = c }
+                            prov::Payload::Issue(r) => { let (n, _, c) = r.unpack(); v.class = n; v.csr = c }
+                            prov::Payload::Revoke(r) => { v.key = r.key() }
+                            _ => {} } }
+                        AnyMsg::Pub(m) => if let Ok(publ::Query::Delta(d)) = m.as_query() { for e in d.into_elements() { match e {
+                            publ::PublishDeltaElement::Publish(p) => { let (tag, _, c) = p.unpack(); v.tag = tag; v.b64 = c }
+                            publ::PublishDeltaElement::Withdraw(w) => { v.hash = *w.hash() }
+                            _ => {} } } },
+                        AnyMsg::Repo(m) => { v.svc = m.service_uri().clone(); v.rsync2 = m.repo_info().base_uri().clone(); if let Some(h) = m.rrdp_notification_uri() { v.https = h.clone() } }
+                        _ => {} } }
+                    v.intact(fx, &t).map_err(|e| format!("a part of a decoded message is not what was written: {e}"))?;
+                    if form == 6 { drop(sources); return judge(&build(fx, kind, v), "built from the parts") }
+                    let m = build(fx, kind, v.clone());
+                    judge(&m, "built from the parts")?;
+                    for (s, d) in &sources { if s.to_vec() != *d { return Err("a source message writes another document after its parts were used".into()) } }
+                    drop(m);
+                    for (s, d) in &sources { if s.to_vec() != *d { return Err("a source message writes another document after the built message was dropped".into()) } }
+                    v.intact(fx, &t)?;
+                    judge(&build(fx, kind, v), "built again from the parts")
+                }
+            }
+        });
+    });
+    fails.flush(ctx, &sp);
+    sp.sample_str(|| format!("{} from value set 1, {}", BUILD_KINDS[7], FORMS[3]));
+    sp.done(true, &format!("3 value sets x {} constructor kinds x {} ownership forms", BUILD_KINDS.len(), FORMS.len()));
+}
+
 fn main() {
     let ctx = Ctx::new("C11", "exploration");
+    // child-process mode of environment.timezone: print the subject observations and leave
+    if std::env::args().any(|a| a == "--c11-subject-dump") {
+        let fx = Fx::load(&ctx);
+        print!("{}", subject_dump(&Shared::load(&fx)));
+        return;
+    }
     // a Trace-level logger that formats every record: the library's log statements run during all parses
     if log::set_logger(&TRACE_LOG).is_ok() { log::set_max_level(log::LevelFilter::Trace) }
     ctx.assume("protocol-valid field values: handles [-_A-Za-z0-9/]{1,255} (RFC 8183 pattern; the empty handle the pattern would admit is refused by the library's own FromStr and left out); tags and class names xsd:token over printable ASCII and DEL, class names non-empty, at most 1024 characters; URIs as admitted by uri::Rsync / uri::Https with RFC 3986 characters and every letter case of scheme, authority and path, service URIs built through the public ServiceUri::Https / ServiceUri::Http variants (http scheme in every letter case) as well as through FromStr / TryFrom; resource sets in canonical form built by FromStr / all() / empty(); not-after times with whole seconds in years 1..9999 (fractional seconds are a separately named oracle); object contents of any length including 0 (RFC 8181 base64 = xsd:base64Binary without minLength); ID certificates non-empty");
@@ -2533,6 +3594,15 @@ fn main() {
     space_grammar(&ctx, &fx); lap("grammar");
     space_values(&ctx, &fx); lap("values");
     space_parsers(&ctx, &fx); lap("parsers");
+    // sequences, environment, call parameters, shared values: a panic of the explorer code here can only come
+    // from the library misbehaving on the menu messages (each group is seen to complete on the unchanged tree)
+    let sh = Shared::load(&fx);
+    let groups: [(&str, fn(&Ctx, &Shared)); 7] = [("history", space_history), ("environment", space_environment), ("display", space_display), ("sinks", space_sinks),
+        ("handed_out", space_handed_out), ("ownership", space_ownership), ("scratch", |_, _| ())];
+    for (name, f) in groups {
+        if let Err(p) = guard(|| f(&ctx, &sh)) { ctx.fail(&format!("C11.{name}.nopanic"), format!("space group {name}"), format!("the explorer was stopped by a panic: {p}")) }
+        lap(name);
+    }
     ctx.assume(&format!("a Trace-level logger formatting every record was installed: {} of the library's log statements ran", if LOG_RECORDS.load(std::sync::atomic::Ordering::Relaxed) > 0 { "some" } else { "none" }));
     ctx.finish();
 }
